@@ -4,10 +4,26 @@
 //!   c01 unesc <utf8-string-hex>             real unescape_filename on an arbitrary string → `ok <hex>` | `err`
 //!   c01 start <size,size,…|-> <offset>       real ContentStartpoints::compute_start → `ok <i> <off>`
 //!   c01 coalesce <off:len,off:len,…>         real BlobLocations::coalesce chain → `ok <off>:<len>:<n> …`
-//!   c01 e2e <cfg…> <entries…> <seed>        real init + backup of an in-memory tree, then every way of reading the
+//!   c01 link <target-hex>                   real NodeType::from_link / to_link (+ serde_json round trip of the node) →
+//!                                           `ok <raw present 0|1> <to_link bytes> <stored string bytes, `-` if raw present>`
+//!   c01 e2e <cfg…> [opt…] <entries…> <seed>  real init + backup of an in-memory tree, then every way of reading the
 //!                                           snapshot back is compared with the source (oracles); observation = per
 //!                                           entry `path:kind[:len:chunk-lengths]`, which the model predicts with the
 //!                                           chunker model (ties the archiver's chunk lists to C06's theorems)
+//!   c01 e2el <cfg…> [opt…] <entries…> <seed> the same with a real directory as the source: the tree is created in a temp
+//!                                           dir, backed up with the `backup` command (LocalSource), restored into a
+//!                                           second dir; both directories are walked and compared
+//!   c01 big <cfg…> <files|dirs> <n> <seed>   ONE backup adding more blobs than the indexer's MAX_COUNT (n distinct chunks in a few
+//!                                           files / in n tiny directories), so that index files are written while the backup runs;
+//!                                           re-open, ls + dump + ranged reads + check; `ok <shape> <n files> chunks <n>`
+//!
+//! cfg (8 tokens): v= comp= chunker= avg= min= max= dp= tp=     opt: gf=<pack grow factor> nr=<ranged reads per file>
+//! ro=<rounds of: damage the restored tree (blob-aligned blocks overwritten, truncated, extended, touched, removed, replaced,
+//! additional entries), restore over it with random delete / verify_existing, compare again>
+//! as=<0|1> (e2el: --as-path /src or the real path).  entries (path = hex components joined by `/`, mtime = `sec[.nanos]`):
+//!   F:<path>:<z|c|r|p>:<len>:<seed>:<mode>:<mtime>[:<names outside of the tree>]   file with generated content
+//!   D:<path>:<mode>:<mtime>    L:<path>:<target-hex>:<mtime>    H:<path>:<path of an F entry>  (further name, same inode)
+//!   T:<path>:<dir path>:<mode>:<mtime>   file whose bytes are the serialised tree blob of that directory (e2e only)
 use std::collections::BTreeMap;
 use std::ffi::OsString;
 use std::os::unix::ffi::{OsStrExt, OsStringExt};
@@ -16,9 +32,14 @@ use std::path::{Path, PathBuf};
 use crate::dispatch::c05::open_nc;
 use crate::repo::{MemBackend, MemSource, RepoHandle, SRC_ROOT, SrcEntry, SrcKind};
 use crate::util::{Rng, Stats, errkind, guarded, hex, unhex};
-use rustic_core::repofile::{Chunker, ConfigFile, MasterKey, Metadata, Node, NodeType, SnapshotFile};
+
+#[path = "c01_ixr.rs"]
+pub mod ixr;
+#[path = "c01_time.rs"]
+pub mod time;
+use rustic_core::repofile::{BlobType, Chunker, ConfigFile, MasterKey, Metadata, Node, NodeType, SnapshotFile};
 use rustic_core::{
-    BackupOptions, Credentials, KeyOptions, LocalDestination, LsOptions, Repository, RestoreOptions,
+    ReadSource, ReadSourceEntry, RusticResult, BackupOptions, BlobId, Credentials, Excludes, IndexedFull, KeyOptions, LocalDestination, LsOptions, PathList, Repository, RestoreOptions,
 };
 
 const DEFAULT_POLY: u64 = 0x003D_A335_8B4D_C173;
@@ -93,7 +114,7 @@ impl Cfg {
             },
         })
     }
-    fn config_file(&self) -> ConfigFile {
+    fn config_file(&self, gf: Option<u32>) -> ConfigFile {
         let mut c = ConfigFile::new(self.version, rustic_core::Id::random().into(), DEFAULT_POLY);
         c.compression = self.comp;
         c.chunker = Some(if self.fixed { Chunker::FixedSize } else { Chunker::Rabin });
@@ -102,108 +123,825 @@ impl Cfg {
         c.chunk_max_size = Some(self.max);
         c.datapack_size = self.dp;
         c.treepack_size = self.tp;
+        c.datapack_growfactor = gf;
+        c.treepack_growfactor = gf;
         c
     }
 }
 
-fn init_with(cfg: &Cfg) -> Result<RepoHandle, String> {
+fn init_with(cfg: &Cfg, gf: Option<u32>) -> Result<RepoHandle, String> {
     let h = RepoHandle { be: MemBackend::new(), hot: None, key: MasterKey::new() };
     let repo = Repository::new(&RepoHandle::default_opts(), &h.backends()).map_err(|e| errkind(&e))?;
     _ = repo
-        .init_with_config(&Credentials::Masterkey(h.key.clone()), &KeyOptions::default(), cfg.config_file())
+        .init_with_config(&Credentials::Masterkey(h.key.clone()), &KeyOptions::default(), cfg.config_file(gf))
         .map_err(|e| errkind(&e))?;
     Ok(h)
 }
 
 // ---------------------------------------------------------------------------------------------------------
 
-fn entry_tokens(e: &SrcEntry, spec: &BTreeMap<Vec<Vec<u8>>, (String, usize, u64)>) -> String {
-    let p = e.path.iter().map(|c| hex(c)).collect::<Vec<_>>().join("/");
-    match &e.kind {
-        SrcKind::File(_) => {
-            let (k, l, s) = &spec[&e.path];
-            format!("F:{p}:{k}:{l}:{s}:{:o}:{}", e.mode, e.mtime_s)
+
+/// options between the 8 config tokens and the entries (`key=value`, no `:`)
+#[derive(Clone, Debug)]
+struct Opts {
+    /// pack grow factor (data and tree); None = the default of the code
+    gf: Option<u32>,
+    /// number of ranged reads per file
+    nr: usize,
+    /// e2el: back up with `--as-path /src` (true) or under the real absolute path of the temp dir
+    as_path: bool,
+    /// rounds of "damage the restored tree, restore over it"
+    ro: usize,
+    /// witness switch: every round deletes and replaces all directories without a file or directory below them by files
+    /// (defect repaired by f1ffc25: `restore --delete` removed the file but did not create the directory; the random
+    /// generator now replaces such directories too)
+    rd: bool,
+    /// witness switch: trees with several names of one inode get their rounds WITHOUT damage (defect repaired by c00c383: a
+    /// second restore over restored hardlinks failed with `InputOutput`, the link existed already; without the switch such
+    /// trees are damaged and restored over like all others)
+    hl: bool,
+}
+
+fn split_opts<'a, 'b>(t: &'a [&'b str]) -> Option<(Opts, &'a [&'b str])> {
+    let mut o = Opts { gf: None, nr: 6, as_path: true, ro: 0, rd: false, hl: false };
+    let mut i = 0;
+    while i < t.len() && !t[i].contains(':') && t[i].contains('=') {
+        let (k, v) = t[i].split_once('=')?;
+        match k {
+            "gf" => o.gf = Some(v.parse().ok()?),
+            "nr" => o.nr = v.parse().ok()?,
+            "ro" => o.ro = v.parse().ok().filter(|r| *r <= 8)?,
+            "as" | "rd" | "hl" => {
+                let b = match v {
+                    "0" => false,
+                    "1" => true,
+                    _ => return None,
+                };
+                match k {
+                    "as" => o.as_path = b,
+                    "rd" => o.rd = b,
+                    _ => o.hl = b,
+                }
+            }
+            _ => return None,
         }
-        SrcKind::Dir => format!("D:{p}:{:o}:{}", e.mode, e.mtime_s),
-        SrcKind::Symlink(t) => format!("L:{p}:{}:{}", hex(t), e.mtime_s),
+        i += 1;
+    }
+    Some((o, &t[i..]))
+}
+
+/// what a token is besides its `SrcEntry`
+#[derive(Clone, Debug, PartialEq)]
+enum Tag {
+    Plain,
+    /// a further name of the file at this path (same inode)
+    Hard(Vec<Vec<u8>>),
+    /// a file whose content is the serialised tree blob of the directory at this path
+    TreeOf(Vec<Vec<u8>>),
+}
+
+/// one parsed entry token; `e.mode` holds unix permission bits (0o7777)
+#[derive(Clone, Debug)]
+struct PEnt {
+    e: SrcEntry,
+    tag: Tag,
+    ns: u32,
+    /// names of the same inode outside of the backed-up tree
+    xlinks: u64,
+}
+
+fn hexpath(p: &[Vec<u8>]) -> String {
+    p.iter().map(|c| hex(c)).collect::<Vec<_>>().join("/")
+}
+
+fn mtime_tok(s: i64, ns: u32) -> String {
+    if ns == 0 { s.to_string() } else { format!("{s}.{ns:09}") }
+}
+
+fn entry_token(pe: &PEnt, spec: &BTreeMap<Vec<Vec<u8>>, (String, usize, u64)>) -> String {
+    let e = &pe.e;
+    let p = hexpath(&e.path);
+    let mt = mtime_tok(e.mtime_s, pe.ns);
+    match (&pe.tag, &e.kind) {
+        (Tag::Hard(t), _) => format!("H:{p}:{}", hexpath(t)),
+        (Tag::TreeOf(d), _) => format!("T:{p}:{}:{:o}:{mt}", hexpath(d), e.mode),
+        (Tag::Plain, SrcKind::File(_)) => {
+            let (k, l, s) = &spec[&e.path];
+            if pe.xlinks > 0 { format!("F:{p}:{k}:{l}:{s}:{:o}:{mt}:{}", e.mode, pe.xlinks) } else { format!("F:{p}:{k}:{l}:{s}:{:o}:{mt}", e.mode) }
+        }
+        (Tag::Plain, SrcKind::Dir) => format!("D:{p}:{:o}:{mt}", e.mode),
+        (Tag::Plain, SrcKind::Symlink(t)) => format!("L:{p}:{}:{mt}", hex(t)),
     }
 }
 
-fn parse_entries(t: &[&str]) -> Option<Vec<SrcEntry>> {
-    let mut out = Vec::new();
+fn parse_mtime(s: &str) -> Option<(i64, u32)> {
+    match s.split_once('.') {
+        None => Some((s.parse().ok()?, 0)),
+        Some((a, b)) => {
+            let ns: u32 = b.parse().ok()?;
+            if b.len() != 9 || ns >= 1_000_000_000 {
+                return None;
+            }
+            Some((a.parse().ok()?, ns))
+        }
+    }
+}
+
+fn parse_path(s: &str) -> Option<Vec<Vec<u8>>> {
+    let p: Vec<Vec<u8>> = s.split('/').map(unhex).collect::<Option<_>>()?;
+    for c in &p {
+        if c.is_empty() || c.len() > 255 || c == b"." || c == b".." || c.contains(&b'/') || c.contains(&0) {
+            return None;
+        }
+    }
+    Some(p)
+}
+
+fn parse_entries(t: &[&str]) -> Option<Vec<PEnt>> {
+    let mut out: Vec<PEnt> = Vec::new();
+    let mk = |p: Vec<Vec<u8>>, kind: SrcKind, mode: u32, (mtime, ns): (i64, u32), tag: Tag, xlinks: u64| PEnt {
+        e: SrcEntry { path: p, kind, mode, mtime_s: mtime, ctime_s: mtime, inode: 0, links: 1 },
+        tag,
+        ns,
+        xlinks,
+    };
+    let mode = |s: &str| u32::from_str_radix(s, 8).ok().filter(|m| *m <= 0o7777);
     for tok in t {
         let f: Vec<&str> = tok.split(':').collect();
-        let path = |s: &str| -> Option<Vec<Vec<u8>>> { s.split('/').map(unhex).collect() };
         match f.as_slice() {
-            ["F", p, k, l, s, mode, mtime] => {
+            ["F", p, k, l, s, m, mt] | ["F", p, k, l, s, m, mt, _] => {
+                let x = if f.len() == 8 { f[7].parse().ok()? } else { 0 };
                 let c = content(k, l.parse().ok()?, s.parse().ok()?)?;
-                let p = path(p)?;
-                let refs: Vec<&[u8]> = p.iter().map(Vec::as_slice).collect();
-                let mut e = SrcEntry::file(&refs, &c);
-                e.mode = u32::from_str_radix(mode, 8).ok()?;
-                e.mtime_s = mtime.parse().ok()?;
-                e.ctime_s = e.mtime_s;
-                out.push(e);
+                out.push(mk(parse_path(p)?, SrcKind::File(c), mode(m)?, parse_mtime(mt)?, Tag::Plain, x));
             }
-            ["D", p, mode, mtime] => {
-                let p = path(p)?;
-                let refs: Vec<&[u8]> = p.iter().map(Vec::as_slice).collect();
-                let mut e = SrcEntry::dir(&refs);
-                e.mode = u32::from_str_radix(mode, 8).ok()?;
-                e.mtime_s = mtime.parse().ok()?;
-                e.ctime_s = e.mtime_s;
-                out.push(e);
+            ["D", p, m, mt] => out.push(mk(parse_path(p)?, SrcKind::Dir, mode(m)?, parse_mtime(mt)?, Tag::Plain, 0)),
+            ["L", p, target, mt] => {
+                let t = unhex(target)?;
+                if t.is_empty() || t.len() > 4095 || t.contains(&0) {
+                    return None;
+                }
+                out.push(mk(parse_path(p)?, SrcKind::Symlink(t), 0o777, parse_mtime(mt)?, Tag::Plain, 0));
             }
-            ["L", p, target, mtime] => {
-                let p = path(p)?;
-                let refs: Vec<&[u8]> = p.iter().map(Vec::as_slice).collect();
-                let mut e = SrcEntry::file(&refs, b"");
-                e.kind = SrcKind::Symlink(unhex(target)?);
-                e.mode = 0o777;
-                e.mtime_s = mtime.parse().ok()?;
-                e.ctime_s = e.mtime_s;
-                out.push(e);
-            }
+            ["H", p, target] => out.push(mk(parse_path(p)?, SrcKind::File(vec![]), 0, (0, 0), Tag::Hard(parse_path(target)?), 0)),
+            ["T", p, dir, m, mt] => out.push(mk(parse_path(p)?, SrcKind::File(vec![]), mode(m)?, parse_mtime(mt)?, Tag::TreeOf(parse_path(dir)?), 0)),
             _ => return None,
+        }
+    }
+    // no path twice, no entry below a non-directory
+    for (i, a) in out.iter().enumerate() {
+        for (j, b) in out.iter().enumerate() {
+            if i != j && (a.e.path == b.e.path || (b.e.path.starts_with(&a.e.path) && !matches!(a.e.kind, SrcKind::Dir))) {
+                return None;
+            }
+        }
+    }
+    // further names take content and metadata of the (plain) file they name
+    for i in 0..out.len() {
+        if let Tag::Hard(t) = out[i].tag.clone() {
+            let src = out.iter().find(|x| x.e.path == t && x.tag == Tag::Plain && matches!(x.e.kind, SrcKind::File(_)))?.clone();
+            out[i].e.kind = src.e.kind;
+            out[i].e.mode = src.e.mode;
+            out[i].e.mtime_s = src.e.mtime_s;
+            out[i].e.ctime_s = src.e.ctime_s;
+            out[i].ns = src.ns;
+        }
+    }
+    // a tree-content file names a directory of the source that does not hold it
+    for x in &out {
+        if let Tag::TreeOf(d) = &x.tag {
+            if x.e.path.starts_with(d) || !out.iter().any(|y| &y.e.path == d && matches!(y.e.kind, SrcKind::Dir)) {
+                return None;
+            }
+            if out.iter().any(|y| y.e.path.starts_with(d) && matches!(y.tag, Tag::TreeOf(_))) {
+                return None;
+            }
         }
     }
     Some(out)
 }
 
-fn rel_path(e: &SrcEntry) -> PathBuf {
-    let mut p = PathBuf::from("src");
-    for c in &e.path {
-        p.push(OsString::from_vec(c.clone()));
+/// inode numbers / link counts: every file with further names (inside or outside of the tree) gets its own inode
+fn assign_inodes(ents: &mut [PEnt]) {
+    let mut next = 1000u64;
+    for i in 0..ents.len() {
+        if ents[i].tag != Tag::Plain || !matches!(ents[i].e.kind, SrcKind::File(_)) {
+            continue;
+        }
+        let p = ents[i].e.path.clone();
+        let names = ents.iter().filter(|x| x.tag == Tag::Hard(p.clone())).count() as u64;
+        let links = 1 + names + ents[i].xlinks;
+        if links > 1 {
+            next += 1;
+            for x in ents.iter_mut() {
+                if x.e.path == p || x.tag == Tag::Hard(p.clone()) {
+                    x.e.inode = next;
+                    x.e.links = links;
+                }
+            }
+        }
     }
-    p
 }
 
-fn walk_dir(root: &Path, rel: &Path, out: &mut BTreeMap<Vec<u8>, (String, Vec<u8>, u32, i64)>) -> std::io::Result<()> {
+const GO_SETUID: u32 = 1 << 23;
+const GO_SETGID: u32 = 1 << 22;
+const GO_STICKY: u32 = 1 << 20;
+
+/// unix permission bits (0o7777) → the Go `FileMode` encoding nodes use
+fn unix_to_go(m: u32) -> u32 {
+    (m & 0o777) | if m & 0o4000 != 0 { GO_SETUID } else { 0 } | if m & 0o2000 != 0 { GO_SETGID } else { 0 } | if m & 0o1000 != 0 { GO_STICKY } else { 0 }
+}
+
+/// permission bits (0o7777) of a node mode in Go encoding (type bits are not looked at)
+fn go_perm(m: u32) -> u32 {
+    (m & 0o777) | if m & GO_SETUID != 0 { 0o4000 } else { 0 } | if m & GO_SETGID != 0 { 0o2000 } else { 0 } | if m & GO_STICKY != 0 { 0o1000 } else { 0 }
+}
+
+fn os(b: &[u8]) -> OsString {
+    OsString::from_vec(b.to_vec())
+}
+
+fn join_rel(prefix: &[u8], comps: &[Vec<u8>]) -> Vec<u8> {
+    let mut v = prefix.to_vec();
+    for c in comps {
+        if !v.is_empty() {
+            v.push(b'/');
+        }
+        v.extend_from_slice(c);
+    }
+    v
+}
+
+/// one entry of the source as every way of reading the snapshot has to show it
+#[derive(Clone, Debug)]
+struct Exp {
+    /// path relative to the listing root, raw bytes
+    rel: Vec<u8>,
+    /// token form of the path (observation)
+    hexp: String,
+    kind: SrcKind,
+    /// unix permission bits (not compared for symlinks)
+    mode: u32,
+    mtime_s: i64,
+    ns: u32,
+    /// 'f' file (observation with chunk lengths), 't' tree-content file, 'd', 'l', '-' = not part of the observation,
+    /// 'R' = the directory handed to `backup` itself: `LocalSource` skips the entry of depth 0, so its own permission bits
+    /// and mtime are not in the snapshot (only its name and type are compared)
+    tag: char,
+    /// one of several names of an inode inside the tree
+    hl: bool,
+}
+
+#[derive(Clone, Debug)]
+struct Walked {
+    kind: char,
+    data: Vec<u8>,
+    mode: u32,
+    mtime_s: i64,
+    ns: u32,
+}
+
+fn walk_dir(root: &Path, rel: &Path, out: &mut BTreeMap<Vec<u8>, Walked>) -> std::io::Result<()> {
     use std::os::unix::fs::MetadataExt;
     for ent in std::fs::read_dir(root.join(rel))? {
         let ent = ent?;
         let r = rel.join(ent.file_name());
         let md = std::fs::symlink_metadata(root.join(&r))?;
         let key = r.as_os_str().as_bytes().to_vec();
+        let w = |kind: char, data: Vec<u8>| Walked { kind, data, mode: md.mode() & 0o7777, mtime_s: md.mtime(), ns: md.mtime_nsec() as u32 };
         if md.file_type().is_symlink() {
             let t = std::fs::read_link(root.join(&r))?;
-            _ = out.insert(key, ("l".into(), t.as_os_str().as_bytes().to_vec(), 0, md.mtime()));
+            _ = out.insert(key, w('l', t.as_os_str().as_bytes().to_vec()));
         } else if md.is_dir() {
-            _ = out.insert(key, ("d".into(), vec![], md.mode() & 0o7777, md.mtime()));
+            _ = out.insert(key, w('d', vec![]));
             walk_dir(root, &r, out)?;
+        } else if md.is_file() {
+            _ = out.insert(key, w('f', std::fs::read(root.join(&r))?));
         } else {
-            _ = out.insert(key, ("f".into(), std::fs::read(root.join(&r))?, md.mode() & 0o7777, md.mtime()));
+            _ = out.insert(key, w('?', vec![]));
         }
     }
     Ok(())
 }
 
-fn e2e(cfg: &Cfg, entries: Vec<SrcEntry>, seed: u64) -> String {
-    let h = match init_with(cfg) {
+fn last_comp(rel: &[u8]) -> &[u8] {
+    rel.rsplit(|b| *b == b'/').next().unwrap_or(rel)
+}
+
+fn parent_of(rel: &[u8]) -> Option<&[u8]> {
+    rel.iter().rposition(|b| *b == b'/').map(|i| &rel[..i])
+}
+
+fn kind_char(n: &Node) -> char {
+    if n.is_dir() {
+        'd'
+    } else if n.is_symlink() {
+        'l'
+    } else if n.is_file() {
+        'f'
+    } else {
+        '?'
+    }
+}
+
+fn exp_char(e: &Exp) -> char {
+    match e.kind {
+        SrcKind::Dir => 'd',
+        SrcKind::Symlink(_) => 'l',
+        SrcKind::File(_) => 'f',
+    }
+}
+
+/// ranges for `read_file_at`: the fixed border ranges, ranges starting at / around chunk boundaries and EOF, lengths of
+/// zero, one, exactly up to the next boundary ± 1, beyond EOF, random
+fn read_ranges(rng: &mut Rng, len: usize, bounds: &[usize], nr: usize) -> Vec<(usize, usize)> {
+    let mut v = vec![(0, len + 3), (len, 5), (len + 7, 5), (len / 2, 0)];
+    while v.len() < nr {
+        let b = if bounds.is_empty() { 0 } else { *rng.pick(bounds) };
+        let off = match rng.below(8) {
+            0 => b,
+            1 => b.saturating_sub(1),
+            2 => b + 1,
+            3 => len.saturating_sub(rng.below(4) as usize),
+            4 => len + rng.below(3) as usize,
+            _ => rng.below(len as u64 + 2) as usize,
+        };
+        let next = bounds.iter().copied().find(|x| *x > off).unwrap_or(len.max(off));
+        let l = match rng.below(8) {
+            0 => 0,
+            1 => 1,
+            2 => next - off,
+            3 => (next - off).saturating_sub(1),
+            4 => next - off + 1,
+            5 => len + 10,
+            _ => rng.below(len as u64 + 10) as usize,
+        };
+        v.push((off, l));
+    }
+    v
+}
+
+fn ls_set<S: IndexedFull>(repo: &Repository<S>, node: &Node, opts: &LsOptions) -> Result<BTreeMap<Vec<u8>, char>, String> {
+    let v: Vec<(PathBuf, Node)> = repo.ls(node, opts).and_then(|it| it.collect()).map_err(|e| format!("oracle-fail:ls-variant-{}", errkind(&e)))?;
+    let n = v.len();
+    let m: BTreeMap<Vec<u8>, char> = v.iter().map(|(p, n)| (p.as_os_str().as_bytes().to_vec(), kind_char(n))).collect();
+    if m.len() != n {
+        return Err("oracle-fail:ls-variant-duplicate-path".into());
+    }
+    Ok(m)
+}
+
+/// Every way of reading the snapshot below `root` back, compared with `exps`; Ok = the observation items.
+#[allow(clippy::too_many_lines)]
+fn verify<S: IndexedFull>(repo: &Repository<S>, root: &Node, exps: &[Exp], opts: &Opts, seed: u64, tmp: &Path) -> Result<Vec<String>, String> {
+    // --- ls: names, types, link targets, permission bits, mtimes
+    let ls: Vec<(PathBuf, Node)> = repo.ls(root, &LsOptions::default()).and_then(|it| it.collect()).map_err(|e| format!("oracle-fail:ls-{}", errkind(&e)))?;
+    let by_path: BTreeMap<Vec<u8>, &Node> = ls.iter().map(|(p, n)| (p.as_os_str().as_bytes().to_vec(), n)).collect();
+    if by_path.len() != ls.len() {
+        return Err("oracle-fail:ls-duplicate-path".into());
+    }
+    if by_path.len() != exps.len() {
+        return Err(format!("oracle-fail:ls-entry-count:{}:{}", by_path.len(), exps.len()));
+    }
+    let mut rng = Rng::new(seed);
+    let mut obs = Vec::new();
+    let mut bounds_of: BTreeMap<Vec<u8>, Vec<usize>> = BTreeMap::new();
+    if std::env::var("VH_DEBUG").is_ok() {
+        for (p, n) in &ls {
+            eprintln!("ls {:?} {}", p, serde_json::to_string(n).unwrap_or_default());
+        }
+    }
+    for e in exps {
+        let Some(n) = by_path.get(&e.rel) else { return Err("oracle-fail:ls-name-missing".into()) };
+        if e.tag == 'R' {
+            if !n.is_dir() {
+                return Err("oracle-fail:ls-dir".into());
+            }
+            continue;
+        }
+        let Some(mt) = n.meta.mtime else { return Err(format!("oracle-fail:ls-mtime:{}:none", e.hexp)) };
+        if mt.as_nanosecond() != i128::from(e.mtime_s) * 1_000_000_000 + i128::from(e.ns) {
+            return Err(format!("oracle-fail:ls-mtime:{}:{}:{}.{:09}", e.hexp, mt.as_nanosecond(), e.mtime_s, e.ns));
+        }
+        let p = &e.hexp;
+        match &e.kind {
+            SrcKind::Dir => {
+                if !n.is_dir() || n.meta.mode.map(go_perm) != Some(e.mode) {
+                    return Err("oracle-fail:ls-dir".into());
+                }
+                if e.tag == 'd' {
+                    obs.push(format!("{p}:d"));
+                }
+            }
+            SrcKind::Symlink(t) => {
+                if !n.is_symlink() || n.node_type.to_link().as_os_str().as_bytes() != t.as_slice() {
+                    return Err("oracle-fail:ls-symlink-target".into());
+                }
+                obs.push(format!("{p}:l"));
+            }
+            SrcKind::File(c) => {
+                if !n.is_file() || n.meta.mode.map(go_perm) != Some(e.mode) || n.meta.size != c.len() as u64 {
+                    return Err("oracle-fail:ls-file-meta".into());
+                }
+                // --- dump
+                let mut buf = Vec::new();
+                if let Err(err) = repo.dump(n, &mut buf) {
+                    return Err(format!("oracle-fail:dump-{}", errkind(&err)));
+                }
+                if &buf != c {
+                    return Err("oracle-fail:dump-content".into());
+                }
+                // chunk lengths as recorded in the snapshot (data_length of every content blob)
+                let mut lens = Vec::new();
+                let mut bounds = vec![0usize];
+                for id in n.content.iter().flatten() {
+                    match repo.get_index_entry(id) {
+                        Ok(ie) => {
+                            lens.push(ie.data_length().to_string());
+                            bounds.push(bounds[bounds.len() - 1] + ie.data_length() as usize);
+                        }
+                        Err(_) => return Err("oracle-fail:content-blob-not-indexed".into()),
+                    }
+                }
+                let len = c.len();
+                if bounds[bounds.len() - 1] != len {
+                    return Err("oracle-fail:content-lengths-sum".into());
+                }
+                // --- ranged reads at random and boundary ranges
+                let of = repo.open_file(n).map_err(|err| format!("oracle-fail:open-{}", errkind(&err)))?;
+                for (off, l) in read_ranges(&mut rng, len, &bounds, opts.nr) {
+                    let got = repo.read_file_at(&of, off, l).map_err(|err| format!("oracle-fail:read_at-{}", errkind(&err)))?;
+                    let want: &[u8] = if off >= len { &[] } else { &c[off..(off + l).min(len)] };
+                    if got.as_ref() != want {
+                        return Err(format!("oracle-fail:read_at-content:{off}:{l}:{len}"));
+                    }
+                }
+                _ = bounds_of.insert(e.rel.clone(), bounds);
+                // ls of a file node is the file itself
+                for rec in [true, false] {
+                    let m = ls_set(repo, n, &LsOptions::default().recursive(rec))?;
+                    if m.len() != 1 || m.get(last_comp(&e.rel)) != Some(&'f') {
+                        return Err("oracle-fail:ls-of-file-node".into());
+                    }
+                }
+                if e.tag == 't' && std::env::var("VH_DEBUG").is_ok() {
+                    let ids: Vec<String> = n.content.iter().flatten().map(|i| i.to_hex().to_string()).collect();
+                    let hit = ids.len() == 1 && ls.iter().any(|(_, d)| d.subtree.is_some_and(|t| t.to_hex().to_string() == ids[0]));
+                    eprintln!("tree-content-file chunks={} id-equals-a-tree-id={hit}", ids.len());
+                }
+                match e.tag {
+                    't' => obs.push(format!("{p}:t")),
+                    _ => obs.push(format!("{p}:f:{len}:{}", if lens.is_empty() { "-".to_string() } else { lens.join(",") })),
+                }
+            }
+        }
+    }
+    // --- ls variants: non-recursive listing of the root and of directories = their direct children; recursive listing of a
+    // directory node = its descendants (paths relative to it)
+    let children_of = |dir: Option<&[u8]>| -> BTreeMap<Vec<u8>, char> { exps.iter().filter(|x| parent_of(&x.rel) == dir).map(|x| (last_comp(&x.rel).to_vec(), exp_char(x))).collect() };
+    if ls_set(repo, root, &LsOptions::default().recursive(false))? != children_of(None) {
+        return Err("oracle-fail:ls-nonrecursive-root".into());
+    }
+    let dirs: Vec<&Exp> = exps.iter().filter(|x| matches!(x.kind, SrcKind::Dir)).collect();
+    for (i, d) in dirs.iter().enumerate() {
+        if dirs.len() > 16 && i != dirs.len() - 1 && !rng.chance(16, dirs.len() as u64) {
+            continue;
+        }
+        let node = by_path[&d.rel];
+        if ls_set(repo, node, &LsOptions::default().recursive(false))? != children_of(Some(&d.rel)) {
+            return Err("oracle-fail:ls-nonrecursive-dir".into());
+        }
+        let mut pre = d.rel.clone();
+        pre.push(b'/');
+        let below: BTreeMap<Vec<u8>, char> = exps.iter().filter(|x| x.rel.starts_with(&pre)).map(|x| (x.rel[pre.len()..].to_vec(), exp_char(x))).collect();
+        if ls_set(repo, node, &LsOptions::default())? != below {
+            return Err("oracle-fail:ls-recursive-dir".into());
+        }
+    }
+    // --- ls with an excluding glob on a plain ASCII name: exactly the entries of that name (any case for iglob) disappear
+    let plain: Vec<&[u8]> = exps.iter().map(|x| last_comp(&x.rel)).filter(|n| !n.is_empty() && n.iter().all(u8::is_ascii_alphanumeric)).collect();
+    if !plain.is_empty() {
+        let name = rng.pick(&plain).to_vec();
+        let pat = format!("!{}", String::from_utf8_lossy(&name));
+        let all: BTreeMap<Vec<u8>, char> = exps.iter().map(|x| (x.rel.clone(), exp_char(x))).collect();
+        let want: BTreeMap<Vec<u8>, char> = all.iter().filter(|(k, _)| last_comp(k) != name.as_slice()).map(|(k, v)| (k.clone(), *v)).collect();
+        if ls_set(repo, root, &LsOptions::default().excludes(Excludes::default().globs(vec![pat.clone()])))? != want {
+            return Err("oracle-fail:ls-glob".into());
+        }
+        let wanti: BTreeMap<Vec<u8>, char> = all.iter().filter(|(k, _)| !last_comp(k).eq_ignore_ascii_case(&name)).map(|(k, v)| (k.clone(), *v)).collect();
+        if ls_set(repo, root, &LsOptions::default().excludes(Excludes::default().iglobs(vec![pat])))? != wanti {
+            return Err("oracle-fail:ls-iglob".into());
+        }
+    }
+    // --- restore to a temporary directory through LocalDestination, compare with the source
+    let dest_path = tmp.join("r");
+    restore_into(repo, root, &dest_path, RestoreOptions::default()).map_err(|e| format!("oracle-fail:restore-{e}"))?;
+    compare_restored(&dest_path, exps, &[], "restore")?;
+    // --- restore again over modified versions of the restored tree (every choice from the op line's seed)
+    let hardlinks = exps.iter().any(|e| e.hl);
+    for round in 0..opts.ro {
+        let delete = opts.rd || rng.chance(1, 2);
+        let verify_existing = rng.chance(1, 2);
+        let extras = if hardlinks && opts.hl { vec![] } else { mutate_restored(&dest_path, exps, &bounds_of, &mut rng, delete, verify_existing, opts.rd).map_err(|e| format!("err:mutate-restored:{:?}", e.kind()))? };
+        let ropts = RestoreOptions::default().delete(delete).verify_existing(verify_existing);
+        restore_into(repo, root, &dest_path, ropts).map_err(|e| format!("oracle-fail:restore-over-existing-{e}:round{round}:delete={delete}:verify={verify_existing}"))?;
+        let keep: &[Vec<u8>] = if delete { &[] } else { &extras };
+        compare_restored(&dest_path, exps, keep, "restore-over-existing").map_err(|e| format!("{e}:round{round}:delete={delete}:verify={verify_existing}"))?;
+        if delete {
+            continue;
+        }
+        // leave a destination without additional entries for the next round
+        for x in &extras {
+            let p = dest_path.join(os(x));
+            if std::fs::symlink_metadata(&p).is_ok_and(|m| m.is_dir()) { std::fs::remove_dir_all(&p) } else { std::fs::remove_file(&p) }.map_err(|e| format!("err:mutate-restored:{:?}", e.kind()))?;
+        }
+        restore_into(repo, root, &dest_path, RestoreOptions::default()).map_err(|e| format!("oracle-fail:restore-over-existing-{e}:round{round}:cleanup"))?;
+    }
+    Ok(obs)
+}
+
+fn restore_into<S: IndexedFull>(repo: &Repository<S>, root: &Node, dest_path: &Path, ropts: RestoreOptions) -> Result<(), String> {
+    let Some(dp) = dest_path.to_str() else { return Err("tempdir-name".into()) };
+    let dest = LocalDestination::new(dp, true, false).map_err(|e| format!("dest-{}", errkind(&e)))?;
+    let lsopts = LsOptions::default();
+    let stream = || repo.ls(root, &lsopts);
+    let plan = stream().and_then(|s| repo.prepare_restore(&ropts, s, &dest, false)).map_err(|e| format!("prepare-{}", errkind(&e)))?;
+    stream().and_then(|s| repo.restore(plan, &ropts, s, &dest)).map_err(|e| errkind(&e))
+}
+
+/// the restored directory holds exactly `exps` (plus `extras` and what is below them)
+fn compare_restored(dest_path: &Path, exps: &[Exp], extras: &[Vec<u8>], key: &str) -> Result<(), String> {
+    let mut got = BTreeMap::new();
+    if walk_dir(dest_path, Path::new(""), &mut got).is_err() {
+        return Err(format!("oracle-fail:{key}-walk"));
+    }
+    got.retain(|k, _| !extras.iter().any(|x| k == x || (k.starts_with(x) && k.get(x.len()) == Some(&b'/'))));
+    if got.len() != exps.len() {
+        let missing = exps.iter().find(|e| !got.contains_key(&e.rel)).map(|e| format!("missing={}:{}", hex(&e.rel), exp_char(e)));
+        let unexpected = got.keys().find(|k| !exps.iter().any(|e| &e.rel == *k)).map(|k| format!("unexpected={}", hex(k)));
+        return Err(format!("oracle-fail:{key}-entry-count:{}:{}:{}", got.len(), exps.len(), missing.or(unexpected).unwrap_or_default()));
+    }
+    for e in exps {
+        let Some(w) = got.get(&e.rel) else { return Err(format!("oracle-fail:{key}-name-missing")) };
+        if e.tag == 'R' {
+            if w.kind != 'd' {
+                return Err(format!("oracle-fail:{key}-dir"));
+            }
+            continue;
+        }
+        let mtime_ok = w.mtime_s == e.mtime_s && w.ns == e.ns;
+        let mt = || format!("{}:{}.{:09}:{}.{:09}", e.hexp, w.mtime_s, w.ns, e.mtime_s, e.ns);
+        match &e.kind {
+            SrcKind::Dir => {
+                if w.kind != 'd' || w.mode != e.mode {
+                    return Err(format!("oracle-fail:{key}-dir"));
+                }
+                if !mtime_ok {
+                    return Err(format!("oracle-fail:{key}-dir-mtime:{}", mt()));
+                }
+            }
+            SrcKind::Symlink(t) => {
+                if w.kind != 'l' || &w.data != t {
+                    return Err(format!("oracle-fail:{key}-symlink"));
+                }
+                if !mtime_ok {
+                    return Err(format!("oracle-fail:{key}-symlink-mtime:{}", mt()));
+                }
+            }
+            SrcKind::File(c) => {
+                if w.kind != 'f' || &w.data != c {
+                    return Err(format!("oracle-fail:{key}-content:{}:{}:{}", e.hexp, w.data.len(), c.len()));
+                }
+                if w.mode != e.mode {
+                    return Err(format!("oracle-fail:{key}-mode"));
+                }
+                if !mtime_ok {
+                    return Err(format!("oracle-fail:{key}-mtime:{}", mt()));
+                }
+            }
+        }
+    }
+    Ok(())
+}
+
+fn set_mtime(p: &Path, t: std::time::SystemTime) -> std::io::Result<()> {
+    std::fs::File::open(p)?.set_times(std::fs::FileTimes::new().set_accessed(t).set_modified(t))
+}
+
+/// Turn the restored tree into an older / damaged version of itself: blocks of files (aligned with the blobs of the
+/// snapshot) overwritten in place, files truncated / extended / touched / removed / replaced by something else,
+/// directories removed or replaced, additional entries.  Returns the additional entries (relative paths).
+#[allow(clippy::too_many_lines)]
+fn mutate_restored(dest: &Path, exps: &[Exp], bounds_of: &BTreeMap<Vec<u8>, Vec<usize>>, rng: &mut Rng, delete: bool, verify_existing: bool, rd: bool) -> std::io::Result<Vec<Vec<u8>>> {
+    use std::io::{Seek, SeekFrom, Write};
+    use std::os::unix::fs::PermissionsExt;
+    let mut gone: Vec<Vec<u8>> = vec![];
+    let below = |k: &[u8], x: &[u8]| k.starts_with(x) && k.get(x.len()) == Some(&b'/');
+    for e in exps {
+        if e.tag == 'R' || gone.iter().any(|g| below(&e.rel, g)) {
+            continue;
+        }
+        let p = dest.join(os(&e.rel));
+        let old_mtime = sys_time(e.mtime_s, e.ns);
+        let new_mtime = sys_time(e.mtime_s + 1 + rng.below(1000) as i64, 0);
+        match &e.kind {
+            SrcKind::File(c) => {
+                let b = &bounds_of[&e.rel];
+                let nblocks = b.len() - 1;
+                match rng.below(12) {
+                    0 | 1 | 2 | 3 if nblocks > 0 => {
+                        // blocks overwritten in place: every second one, or a random subset
+                        let pattern = rng.below(3);
+                        let mut f = std::fs::OpenOptions::new().write(true).open(&p)?;
+                        let mut any = false;
+                        for i in 0..nblocks {
+                            let hit = match pattern {
+                                0 => i % 2 == 1,
+                                1 => i % 2 == 0,
+                                _ => rng.chance(1, 3),
+                            };
+                            if hit && b[i + 1] > b[i] {
+                                let other: Vec<u8> = c[b[i]..b[i + 1]].iter().map(|x| !x).collect();
+                                _ = f.seek(SeekFrom::Start(b[i] as u64))?;
+                                f.write_all(&other)?;
+                                any = true;
+                            }
+                        }
+                        drop(f);
+                        // an unchanged mtime hides the damage from a restore that does not verify existing files
+                        // (for a name of a shared inode "nothing overwritten here" does not mean the inode is undamaged: another
+                        // name may have damaged it already, and setting the old mtime again would hide that)
+                        let keep_mtime = (verify_existing || (!any && !e.hl)) && rng.chance(1, 2);
+                        set_mtime(&p, if keep_mtime { old_mtime } else { new_mtime })?;
+                    }
+                    4 if !c.is_empty() => {
+                        let f = std::fs::OpenOptions::new().write(true).open(&p)?;
+                        f.set_len(rng.below(c.len() as u64))?;
+                    }
+                    5 => {
+                        let mut f = std::fs::OpenOptions::new().append(true).open(&p)?;
+                        let n = 1 + rng.below(100) as usize;
+                        f.write_all(&rng.bytes(n))?;
+                    }
+                    6 => set_mtime(&p, new_mtime)?,
+                    7 => std::fs::remove_file(&p)?,
+                    8 => std::fs::set_permissions(&p, std::fs::Permissions::from_mode(0o600))?,
+                    9 if delete => {
+                        std::fs::remove_file(&p)?;
+                        if rng.chance(1, 2) {
+                            std::fs::create_dir(&p)?;
+                            std::fs::write(p.join("inner"), b"x")?;
+                        } else {
+                            std::os::unix::fs::symlink("elsewhere", &p)?;
+                        }
+                    }
+                    _ => {}
+                }
+            }
+            SrcKind::Symlink(_) => {
+                if delete && rng.chance(1, 3) {
+                    std::fs::remove_file(&p)?;
+                    if rng.chance(1, 2) {
+                        std::os::unix::fs::symlink("stale-target", &p)?;
+                    } else {
+                        std::fs::write(&p, b"was a symlink")?;
+                    }
+                } else if rng.chance(1, 6) {
+                    std::fs::remove_file(&p)?;
+                }
+            }
+            SrcKind::Dir => {
+                // is there something below it that re-creates it on the way (`create_dir_all` of a directory / of a file's parent)?
+                // If not, `restore --delete` removes the file in its place but never creates it: known defect, `Opts::rd`
+                let recreated = exps.iter().any(|x| below(&x.rel, &e.rel) && !matches!(x.kind, SrcKind::Symlink(_)));
+                let r = rng.below(16);
+                if rd {
+                    if !recreated {
+                        std::fs::remove_dir_all(&p)?;
+                        std::fs::write(&p, b"was a directory")?;
+                        gone.push(e.rel.clone());
+                    }
+                } else if r == 0 {
+                    std::fs::remove_dir_all(&p)?;
+                    gone.push(e.rel.clone());
+                } else if r == 1 && delete {
+                    std::fs::remove_dir_all(&p)?;
+                    std::fs::write(&p, b"was a directory")?;
+                    gone.push(e.rel.clone());
+                } else if r == 2 {
+                    set_mtime(&p, new_mtime)?;
+                } else if r == 3 {
+                    std::fs::set_permissions(&p, std::fs::Permissions::from_mode(0o700))?;
+                }
+            }
+        }
+    }
+    // additional entries: at the top, inside a directory that is still there
+    let mut extras = vec![];
+    let dirs: Vec<&Exp> = exps.iter().filter(|e| matches!(e.kind, SrcKind::Dir) && !gone.iter().any(|g| &e.rel == g || below(&e.rel, g))).collect();
+    for i in 0..rng.below(3) {
+        let mut rel = if dirs.is_empty() || rng.chance(1, 3) { vec![] } else { rng.pick(&dirs).rel.clone() };
+        if !rel.is_empty() {
+            rel.push(b'/');
+        }
+        rel.extend_from_slice(format!("zz-extra-{i}").as_bytes());
+        if exps.iter().any(|e| e.rel == rel) {
+            continue;
+        }
+        let p = dest.join(os(&rel));
+        if rng.chance(1, 2) {
+            std::fs::write(&p, b"additional")?;
+        } else {
+            std::fs::create_dir(&p)?;
+            std::fs::write(p.join("f"), b"additional")?;
+        }
+        extras.push(rel);
+    }
+    Ok(extras)
+}
+
+fn check_clean(h: &RepoHandle) -> Result<(), String> {
+    match crate::dispatch::c05::real_check(h) {
+        Ok(e) if e.is_empty() => Ok(()),
+        Ok(e) => Err(format!("oracle-fail:check-after-backup:{}", e.into_iter().collect::<Vec<_>>().join(","))),
+        Err(e) => Err(format!("oracle-fail:check-after-backup:{e}")),
+    }
+}
+
+fn is_hl(ents: &[PEnt], pe: &PEnt) -> bool {
+    matches!(pe.tag, Tag::Hard(_)) || ents.iter().any(|x| x.tag == Tag::Hard(pe.e.path.clone()))
+}
+
+fn mem_entry(pe: &PEnt) -> SrcEntry {
+    let mut e = pe.e.clone();
+    e.mode = unix_to_go(e.mode);
+    e
+}
+
+/// plaintext of the tree blob of directory `dir` when `entries` are backed up with `cfg`
+fn tree_bytes_of(cfg: &Cfg, opts: &Opts, entries: Vec<SrcEntry>, ns: BTreeMap<Vec<Vec<u8>>, u32>, dir: &[Vec<u8>]) -> Result<Vec<u8>, String> {
+    let h = init_with(cfg, opts.gf)?;
+    let src = NsSource { inner: MemSource::new(entries), ns };
+    let repo = open_nc(&h).and_then(Repository::to_indexed_ids).map_err(|e| errkind(&e))?;
+    let snap = repo.archive(&BackupOptions::default(), &src, SnapshotFile::default(), &[PathBuf::from(SRC_ROOT)]).map_err(|e| format!("backup-{}", errkind(&e)))?;
+    drop(repo);
+    let repo = open_nc(&h).and_then(Repository::to_indexed).map_err(|e| errkind(&e))?;
+    let mut pb = PathBuf::from("src");
+    for c in dir {
+        pb.push(os(c));
+    }
+    let n = repo.node_from_path(snap.tree, &pb).map_err(|e| errkind(&e))?;
+    let t = n.subtree.ok_or("no-subtree")?;
+    let b = repo.get_blob_cached(&BlobId::from(*t), BlobType::Tree).map_err(|e| errkind(&e))?;
+    Ok(b.to_vec())
+}
+
+const ROOT_MTIME: i64 = 1_600_000_000;
+
+/// `MemSource` with nanosecond parts of the mtimes (`SrcEntry` carries whole seconds): token time = floor seconds + nanoseconds
+struct NsSource {
+    inner: MemSource,
+    ns: BTreeMap<Vec<Vec<u8>>, u32>,
+}
+
+impl ReadSource for NsSource {
+    type Open = std::io::Cursor<Vec<u8>>;
+    type Iter = std::vec::IntoIter<RusticResult<ReadSourceEntry<Self::Open>>>;
+    fn size(&self) -> RusticResult<Option<u64>> {
+        Ok(None)
+    }
+    fn entries(&self) -> Self::Iter {
+        // the root first, then `inner.entries` in their order
+        let mut v: Vec<_> = self.inner.entries().collect();
+        for (item, e) in v.iter_mut().skip(1).zip(&self.inner.entries) {
+            if let (Ok(item), Some(ns)) = (item, self.ns.get(&e.path)) {
+                let t = rustic_core::jiff::Timestamp::from_nanosecond(i128::from(e.mtime_s) * 1_000_000_000 + i128::from(*ns)).ok();
+                item.node.meta.mtime = t;
+                item.node.meta.atime = t;
+            }
+        }
+        v.into_iter()
+    }
+}
+
+fn e2e(cfg: &Cfg, opts: &Opts, mut ents: Vec<PEnt>, seed: u64) -> String {
+    assign_inodes(&mut ents);
+    // tree-content files: the tree blobs come from a backup of the other entries with the same configuration
+    if ents.iter().any(|x| matches!(x.tag, Tag::TreeOf(_))) {
+        let others: Vec<SrcEntry> = ents.iter().filter(|x| !matches!(x.tag, Tag::TreeOf(_))).map(mem_entry).collect();
+        for i in 0..ents.len() {
+            if let Tag::TreeOf(d) = ents[i].tag.clone() {
+                match tree_bytes_of(cfg, opts, others.clone(), ents.iter().filter(|x| x.ns != 0).map(|x| (x.e.path.clone(), x.ns)).collect(), &d) {
+                    Ok(b) => ents[i].e.kind = SrcKind::File(b),
+                    Err(e) => return format!("err:tree-of:{e}"),
+                }
+            }
+        }
+    }
+    let h = match init_with(cfg, opts.gf) {
         Ok(h) => h,
         Err(e) => return format!("init-{e}"),
     };
-    let src = MemSource::new(entries);
+    let src = NsSource { inner: MemSource::new(ents.iter().map(mem_entry).collect()), ns: ents.iter().filter(|x| x.ns != 0).map(|x| (x.e.path.clone(), x.ns)).collect() };
     let repo = match open_nc(&h).and_then(Repository::to_indexed_ids) {
         Ok(r) => r,
         Err(e) => return errkind(&e),
@@ -212,155 +950,337 @@ fn e2e(cfg: &Cfg, entries: Vec<SrcEntry>, seed: u64) -> String {
         Ok(s) => s,
         Err(e) => return format!("backup-{}", errkind(&e)),
     };
+    drop(repo);
     let repo = match open_nc(&h).and_then(Repository::to_indexed) {
         Ok(r) => r,
         Err(e) => return errkind(&e),
     };
-    // --- ls: names, types, link targets, permission bits, mtimes
+    let mut root = Node::new_node(std::ffi::OsStr::new(""), NodeType::Dir, Metadata::default());
+    root.subtree = Some(snap.tree);
+    // expected entries: the root directory, every entry of the source (token order first, synthesised parents last)
+    let tagc = |pe: &PEnt| match (&pe.tag, &pe.e.kind) {
+        (Tag::TreeOf(_), _) => 't',
+        (_, SrcKind::File(_)) => 'f',
+        (_, SrcKind::Dir) => 'd',
+        (_, SrcKind::Symlink(_)) => 'l',
+    };
+    let mut exps = vec![Exp { rel: b"src".to_vec(), hexp: String::new(), kind: SrcKind::Dir, mode: 0o755, mtime_s: ROOT_MTIME, ns: 0, tag: '-', hl: false }];
+    for pe in &ents {
+        exps.push(Exp { rel: join_rel(b"src", &pe.e.path), hexp: hexpath(&pe.e.path), kind: pe.e.kind.clone(), mode: pe.e.mode, mtime_s: pe.e.mtime_s, ns: pe.ns, tag: tagc(pe), hl: is_hl(&ents, pe) });
+    }
+    for e in &src.inner.entries {
+        if !ents.iter().any(|pe| pe.e.path == e.path) {
+            exps.push(Exp { rel: join_rel(b"src", &e.path), hexp: String::new(), kind: SrcKind::Dir, mode: go_perm(e.mode), mtime_s: e.mtime_s, ns: 0, tag: '-', hl: false });
+        }
+    }
+    let tmp = match tempfile::tempdir() {
+        Ok(t) => t,
+        Err(_) => return "err:tempdir".into(),
+    };
+    let obs = match verify(&repo, &root, &exps, opts, seed, tmp.path()) {
+        Ok(o) => o,
+        Err(e) => return e,
+    };
+    // --- and the repository checks clean
+    if let Err(e) = check_clean(&h) {
+        return e;
+    }
+    format!("ok {}", obs.join(" "))
+}
+
+fn sys_time(s: i64, ns: u32) -> std::time::SystemTime {
+    use std::time::{Duration, UNIX_EPOCH};
+    if s >= 0 { UNIX_EPOCH + Duration::new(s as u64, ns) } else { UNIX_EPOCH - Duration::new(s.unsigned_abs(), 0) + Duration::new(0, ns) }
+}
+
+fn is_root() -> bool {
+    use std::os::unix::fs::MetadataExt;
+    std::fs::metadata("/proc/self").map(|m| m.uid() == 0).unwrap_or(false)
+}
+
+/// The same round trip with a real directory as the source: the tree of the op line is created in a temp dir (contents,
+/// hardlinks, symlinks, then permissions and mtimes bottom-up), backed up with the `backup` command (`LocalSource` with
+/// default save / filter options), read back and restored into a second directory.
+#[allow(clippy::too_many_lines)]
+fn e2el(cfg: &Cfg, opts: &Opts, ents: Vec<PEnt>, seed: u64) -> String {
+    use std::os::unix::fs::PermissionsExt;
+    if ents.iter().any(|x| matches!(x.tag, Tag::TreeOf(_))) {
+        return "bad-op".into();
+    }
+    let root_ok = is_root();
+    let tmp = match tempfile::tempdir() {
+        Ok(t) => t,
+        Err(_) => return "err:tempdir".into(),
+    };
+    let Ok(base) = tmp.path().canonicalize() else { return "err:tempdir".into() };
+    let srcdir = base.join("src");
+    let outdir = base.join("out");
+    let fs_path = |p: &[Vec<u8>]| {
+        let mut q = srcdir.clone();
+        for c in p {
+            q.push(os(c));
+        }
+        q
+    };
+    let mut sorted: Vec<&PEnt> = ents.iter().collect();
+    sorted.sort_by(|a, b| a.e.path.cmp(&b.e.path));
+    let setup = || -> std::io::Result<()> {
+        std::fs::create_dir(&srcdir)?;
+        std::fs::create_dir(&outdir)?;
+        let mut nout = 0;
+        // plain entries first (parents sort before their content), further names afterwards
+        for pe in sorted.iter().filter(|x| x.tag == Tag::Plain) {
+            let p = fs_path(&pe.e.path);
+            match &pe.e.kind {
+                SrcKind::Dir => std::fs::create_dir(&p)?,
+                SrcKind::Symlink(t) => std::os::unix::fs::symlink(os(t), &p)?,
+                SrcKind::File(c) => {
+                    std::fs::write(&p, c)?;
+                    for _ in 0..pe.xlinks {
+                        nout += 1;
+                        std::fs::hard_link(&p, outdir.join(format!("x{nout}")))?;
+                    }
+                }
+            }
+        }
+        for pe in &ents {
+            if let Tag::Hard(t) = &pe.tag {
+                std::fs::hard_link(fs_path(t), fs_path(&pe.e.path))?;
+            }
+        }
+        // metadata bottom-up: times before permissions (a file without owner write permission), directories after their content
+        for pe in sorted.iter().rev() {
+            if pe.tag != Tag::Plain || matches!(pe.e.kind, SrcKind::Symlink(_)) {
+                continue;
+            }
+            let p = fs_path(&pe.e.path);
+            let f = std::fs::File::open(&p)?;
+            let t = sys_time(pe.e.mtime_s, pe.ns);
+            f.set_times(std::fs::FileTimes::new().set_accessed(t).set_modified(t))?;
+            drop(f);
+            let mut m = pe.e.mode;
+            if !root_ok {
+                m |= if matches!(pe.e.kind, SrcKind::Dir) { 0o700 } else { 0o400 };
+            }
+            std::fs::set_permissions(&p, std::fs::Permissions::from_mode(m))?;
+        }
+        let f = std::fs::File::open(&srcdir)?;
+        let t = sys_time(ROOT_MTIME, 0);
+        f.set_times(std::fs::FileTimes::new().set_accessed(t).set_modified(t))?;
+        std::fs::set_permissions(&srcdir, std::fs::Permissions::from_mode(0o755))?;
+        Ok(())
+    };
+    if let Err(e) = setup() {
+        return format!("err:src-setup:{:?}", e.kind());
+    }
+    // the source as it is on disk (symlink mtimes cannot be chosen; everything else has to be what the tokens say)
+    let mut disk = BTreeMap::new();
+    if walk_dir(&srcdir, Path::new(""), &mut disk).is_err() || disk.len() != ents.len() {
+        return "err:src-walk".into();
+    }
+    let mut exps = Vec::new();
+    if opts.as_path {
+        exps.push(Exp { rel: b"src".to_vec(), hexp: String::new(), kind: SrcKind::Dir, mode: 0o755, mtime_s: ROOT_MTIME, ns: 0, tag: 'R', hl: false });
+    }
+    let prefix: &[u8] = if opts.as_path { b"src" } else { b"" };
+    for pe in &ents {
+        let Some(w) = disk.get(&join_rel(b"", &pe.e.path)) else { return "err:src-walk".into() };
+        let want_mode = if root_ok { pe.e.mode } else { pe.e.mode | if matches!(pe.e.kind, SrcKind::Dir) { 0o700 } else { 0o400 } };
+        let (kind_ok, tag) = match &pe.e.kind {
+            SrcKind::Dir => (w.kind == 'd' && w.mode == want_mode && (w.mtime_s, w.ns) == (pe.e.mtime_s, pe.ns), 'd'),
+            SrcKind::File(c) => (w.kind == 'f' && &w.data == c && w.mode == want_mode && (w.mtime_s, w.ns) == (pe.e.mtime_s, pe.ns), 'f'),
+            SrcKind::Symlink(t) => (w.kind == 'l' && &w.data == t, 'l'),
+        };
+        if !kind_ok {
+            return "err:src-differs-from-tokens".into();
+        }
+        exps.push(Exp { rel: join_rel(prefix, &pe.e.path), hexp: hexpath(&pe.e.path), kind: pe.e.kind.clone(), mode: w.mode, mtime_s: w.mtime_s, ns: w.ns, tag, hl: is_hl(&ents, pe) });
+    }
+    let h = match init_with(cfg, opts.gf) {
+        Ok(h) => h,
+        Err(e) => return format!("init-{e}"),
+    };
+    let repo = match open_nc(&h).and_then(Repository::to_indexed_ids) {
+        Ok(r) => r,
+        Err(e) => return errkind(&e),
+    };
+    let mut bopts = BackupOptions::default();
+    if opts.as_path {
+        bopts = bopts.as_path(PathBuf::from(SRC_ROOT));
+    }
+    let snap = match repo.backup(&bopts, &PathList::from_iter([srcdir.clone()]), SnapshotFile::default()) {
+        Ok(s) => s,
+        Err(e) => return format!("backup-{}", errkind(&e)),
+    };
+    drop(repo);
+    let repo = match open_nc(&h).and_then(Repository::to_indexed) {
+        Ok(r) => r,
+        Err(e) => return errkind(&e),
+    };
+    let root = if opts.as_path {
+        let mut root = Node::new_node(std::ffi::OsStr::new(""), NodeType::Dir, Metadata::default());
+        root.subtree = Some(snap.tree);
+        root
+    } else {
+        match repo.node_from_path(snap.tree, &srcdir) {
+            Ok(n) => n,
+            Err(e) => return format!("oracle-fail:source-dir-not-in-snapshot-{}", errkind(&e)),
+        }
+    };
+    let obs = match verify(&repo, &root, &exps, opts, seed, &base) {
+        Ok(o) => o,
+        Err(e) => return e,
+    };
+    // the backup left the source as it was
+    let mut disk2 = BTreeMap::new();
+    if walk_dir(&srcdir, Path::new(""), &mut disk2).is_err() || disk2.len() != disk.len() {
+        return "oracle-fail:source-changed".into();
+    }
+    for (k, w) in &disk {
+        let w2 = &disk2[k];
+        if (w.kind, &w.data, w.mode, w.mtime_s, w.ns) != (w2.kind, &w2.data, w2.mode, w2.mtime_s, w2.ns) {
+            return "oracle-fail:source-changed".into();
+        }
+    }
+    if let Err(e) = check_clean(&h) {
+        return e;
+    }
+    format!("ok {}", obs.join(" "))
+}
+
+/// chunk number `i` of the `big` sources: distinct for every i (nothing deduplicates)
+fn big_chunk(i: u64, size: usize, seed: u64) -> Vec<u8> {
+    let mut v = i.to_le_bytes().to_vec();
+    v.resize(size.max(8), (seed & 255) as u8);
+    v
+}
+
+fn big_files(shape: &str, n: u64, size: usize, seed: u64) -> Option<Vec<SrcEntry>> {
+    let mut out = Vec::new();
+    match shape {
+        "files" => {
+            let f = 1 + seed % 3;
+            let mut i = 0u64;
+            for j in 0..f {
+                let cnt = if j + 1 == f { n - i } else { n / f };
+                let mut c = Vec::with_capacity(cnt as usize * size);
+                for _ in 0..cnt {
+                    c.extend_from_slice(&big_chunk(i, size, seed));
+                    i += 1;
+                }
+                out.push(SrcEntry::file(&[format!("f{j}").as_bytes()], &c));
+            }
+        }
+        "dirs" => {
+            for i in 0..n {
+                let (g, d) = (format!("g{}", i / 100), format!("d{}", i % 100));
+                out.push(SrcEntry::file(&[g.as_bytes(), d.as_bytes(), b"f"], &big_chunk(i, size, seed)));
+            }
+        }
+        _ => return None,
+    }
+    Some(out)
+}
+
+fn big(cfg: &Cfg, shape: &str, n: u64, seed: u64) -> String {
+    if !cfg.fixed || cfg.avg < 8 || cfg.avg > 4096 || n > 400_000 {
+        return "bad-op".into();
+    }
+    let Some(files) = big_files(shape, n, cfg.avg, seed) else { return "bad-op".into() };
+    let nfiles = files.len();
+    let src = MemSource::new(files);
+    let trees = if shape == "dirs" { src.entries.len() - nfiles + 1 } else { 1 };
+    if (n as usize) + trees < rustic_core::verif::indexer::MAX_COUNT {
+        return "bad-op:fewer-blobs-than-MAX_COUNT".into();
+    }
+    let h = match init_with(cfg, None) {
+        Ok(h) => h,
+        Err(e) => return format!("init-{e}"),
+    };
+    let repo = match open_nc(&h).and_then(Repository::to_indexed_ids) {
+        Ok(r) => r,
+        Err(e) => return errkind(&e),
+    };
+    let snap = match repo.archive(&BackupOptions::default(), &src, SnapshotFile::default(), &[PathBuf::from(SRC_ROOT)]) {
+        Ok(s) => s,
+        Err(e) => return format!("backup-{}", errkind(&e)),
+    };
+    drop(repo);
+    // a new process: everything comes from the stored index files
+    let repo = match open_nc(&h).and_then(Repository::to_indexed) {
+        Ok(r) => r,
+        Err(e) => return format!("oracle-fail:reopen-{}", errkind(&e)),
+    };
     let mut root = Node::new_node(std::ffi::OsStr::new(""), NodeType::Dir, Metadata::default());
     root.subtree = Some(snap.tree);
     let ls: Vec<(PathBuf, Node)> = match repo.ls(&root, &LsOptions::default()).and_then(|it| it.collect()) {
         Ok(v) => v,
         Err(e) => return format!("oracle-fail:ls-{}", errkind(&e)),
     };
+    if ls.len() != src.entries.len() + 1 {
+        return format!("oracle-fail:ls-entry-count:{}:{}", ls.len(), src.entries.len() + 1);
+    }
     let by_path: BTreeMap<Vec<u8>, &Node> = ls.iter().map(|(p, n)| (p.as_os_str().as_bytes().to_vec(), n)).collect();
-    if by_path.len() != ls.len() {
-        return "oracle-fail:ls-duplicate-path".into();
-    }
-    if by_path.len() != src.entries.len() + 1 {
-        return "oracle-fail:ls-entry-count".into();
-    }
     let mut rng = Rng::new(seed);
-    let mut obs = Vec::new();
+    let mut chunks = 0usize;
     for e in &src.entries {
-        let key = rel_path(e).as_os_str().as_bytes().to_vec();
-        let Some(n) = by_path.get(&key) else { return "oracle-fail:ls-name-missing".into() };
-        if n.meta.mtime.map(|t| t.as_second()) != Some(e.mtime_s) {
-            return "oracle-fail:ls-mtime".into();
+        let Some(n) = by_path.get(&join_rel(b"src", &e.path)) else { return "oracle-fail:ls-name-missing".into() };
+        let SrcKind::File(c) = &e.kind else {
+            if !n.is_dir() {
+                return "oracle-fail:ls-dir".into();
+            }
+            continue;
+        };
+        if !n.is_file() || n.meta.size != c.len() as u64 {
+            return "oracle-fail:ls-file-meta".into();
         }
-        let p = e.path.iter().map(|c| hex(c)).collect::<Vec<_>>().join("/");
-        match &e.kind {
-            SrcKind::Dir => {
-                if !n.is_dir() || n.meta.mode != Some(e.mode) {
-                    return "oracle-fail:ls-dir".into();
-                }
-                obs.push(format!("{p}:d"));
-            }
-            SrcKind::Symlink(t) => {
-                if !n.is_symlink() || n.node_type.to_link().as_os_str().as_bytes() != t.as_slice() {
-                    return "oracle-fail:ls-symlink-target".into();
-                }
-                obs.push(format!("{p}:l"));
-            }
-            SrcKind::File(c) => {
-                if !n.is_file() || n.meta.mode != Some(e.mode) || n.meta.size != c.len() as u64 {
-                    return "oracle-fail:ls-file-meta".into();
-                }
-                // --- dump
-                let mut buf = Vec::new();
-                if let Err(err) = repo.dump(n, &mut buf) {
-                    return format!("oracle-fail:dump-{}", errkind(&err));
-                }
-                if &buf != c {
-                    return "oracle-fail:dump-content".into();
-                }
-                // --- ranged reads at random and boundary ranges
-                let of = match repo.open_file(n) {
-                    Ok(f) => f,
-                    Err(err) => return format!("oracle-fail:open-{}", errkind(&err)),
-                };
-                let len = c.len();
-                for k in 0..6 {
-                    let (off, l) = match k {
-                        0 => (0, len + 3),
-                        1 => (len, 5),
-                        2 => (len + 7, 5),
-                        3 => (len / 2, 0),
-                        _ => (rng.below(len as u64 + 2) as usize, rng.below(len as u64 + 10) as usize),
-                    };
-                    let got = match repo.read_file_at(&of, off, l) {
-                        Ok(b) => b,
-                        Err(err) => return format!("oracle-fail:read_at-{}", errkind(&err)),
-                    };
-                    let want: &[u8] = if off >= len { &[] } else { &c[off..(off + l).min(len)] };
-                    if got.as_ref() != want {
-                        return format!("oracle-fail:read_at-content:{off}:{l}:{len}");
-                    }
-                }
-                // chunk lengths as recorded in the snapshot (data_length of every content blob)
-                let mut lens = Vec::new();
-                for id in n.content.iter().flatten() {
-                    match repo.get_index_entry(id) {
-                        Ok(ie) => lens.push(ie.data_length().to_string()),
-                        Err(_) => return "oracle-fail:content-blob-not-indexed".into(),
-                    }
-                }
-                obs.push(format!("{p}:f:{len}:{}", if lens.is_empty() { "-".to_string() } else { lens.join(",") }));
-            }
+        chunks += n.content.iter().flatten().count();
+        let mut buf = Vec::with_capacity(c.len());
+        if let Err(err) = repo.dump(n, &mut buf) {
+            return format!("oracle-fail:dump-{}", errkind(&err));
         }
-    }
-    // --- restore to a temporary directory through LocalDestination, compare with the source
-    let tmp = match tempfile::tempdir() {
-        Ok(t) => t,
-        Err(_) => return "err:tempdir".into(),
-    };
-    let dest_path = tmp.path().join("r");
-    let Some(dp) = dest_path.to_str() else { return "err:tempdir-name".into() };
-    let dest = match LocalDestination::new(dp, true, false) {
-        Ok(d) => d,
-        Err(e) => return format!("oracle-fail:dest-{}", errkind(&e)),
-    };
-    let ropts = RestoreOptions::default();
-    let lsopts = LsOptions::default();
-    let stream = || repo.ls(&root, &lsopts);
-    let plan = match stream().and_then(|s| repo.prepare_restore(&ropts, s, &dest, false)) {
-        Ok(p) => p,
-        Err(e) => return format!("oracle-fail:prepare-restore-{}", errkind(&e)),
-    };
-    if let Err(e) = stream().and_then(|s| repo.restore(plan, &ropts, s, &dest)) {
-        return format!("oracle-fail:restore-{}", errkind(&e));
-    }
-    let mut got = BTreeMap::new();
-    if walk_dir(&dest_path, Path::new(""), &mut got).is_err() {
-        return "oracle-fail:restore-walk".into();
-    }
-    if got.len() != src.entries.len() + 1 {
-        return "oracle-fail:restore-entry-count".into();
-    }
-    for e in &src.entries {
-        let key = rel_path(e).as_os_str().as_bytes().to_vec();
-        let Some((k, data, mode, mtime)) = got.get(&key) else { return "oracle-fail:restore-name-missing".into() };
-        match &e.kind {
-            SrcKind::Dir => {
-                if k != "d" || *mode != e.mode & 0o7777 {
-                    return "oracle-fail:restore-dir".into();
-                }
-            }
-            SrcKind::Symlink(t) => {
-                if k != "l" || data != t {
-                    return "oracle-fail:restore-symlink".into();
-                }
-            }
-            SrcKind::File(c) => {
-                if k != "f" || data != c {
-                    return "oracle-fail:restore-content".into();
-                }
-                if *mode != e.mode & 0o7777 {
-                    return "oracle-fail:restore-mode".into();
-                }
-                if *mtime != e.mtime_s {
-                    return "oracle-fail:restore-mtime".into();
+        if &buf != c {
+            return "oracle-fail:dump-content".into();
+        }
+        if shape == "files" || rng.chance(1, 200) {
+            let of = match repo.open_file(n) {
+                Ok(f) => f,
+                Err(err) => return format!("oracle-fail:open-{}", errkind(&err)),
+            };
+            for _ in 0..8 {
+                let off = rng.below(c.len() as u64 + 1) as usize;
+                let l = rng.below(5 * cfg.avg as u64) as usize;
+                match repo.read_file_at(&of, off, l) {
+                    Ok(b) if b.as_ref() == &c[off..(off + l).min(c.len())] => {}
+                    Ok(_) => return format!("oracle-fail:read_at-content:{off}:{l}:{}", c.len()),
+                    Err(err) => return format!("oracle-fail:read_at-{}", errkind(&err)),
                 }
             }
         }
     }
-    // --- and the repository checks clean
-    match crate::dispatch::c05::real_check(&h) {
-        Ok(e) if e.is_empty() => {}
-        Ok(e) => return format!("oracle-fail:check-after-backup:{}", e.into_iter().collect::<Vec<_>>().join(",")),
-        Err(e) => return format!("oracle-fail:check-after-backup:{e}"),
+    // the case has to have reached the indexer's flush in the middle of the run (else it shows nothing)
+    if h.be.ids(rustic_core::FileType::Index).len() < 2 {
+        return "oracle-fail:index-not-flushed".into();
     }
-    format!("ok {}", obs.join(" "))
+    if let Err(e) = check_clean(&h) {
+        return e;
+    }
+    format!("ok {shape} {nfiles} chunks {chunks}")
+}
+
+fn run_e2e(rest: &[&str], local: bool) -> String {
+    let ncfg = 8;
+    if rest.len() < ncfg + 2 {
+        return "bad-op".into();
+    }
+    let Some(cfg) = Cfg::parse(&rest[..ncfg]) else { return "bad-op".into() };
+    let Ok(seed) = rest[rest.len() - 1].parse::<u64>() else { return "bad-op".into() };
+    let Some((opts, ent_toks)) = split_opts(&rest[ncfg..rest.len() - 1]) else { return "bad-op".into() };
+    let Some(entries) = parse_entries(ent_toks) else { return "bad-op".into() };
+    if entries.is_empty() {
+        return "bad-op".into();
+    }
+    if local { e2el(&cfg, &opts, entries, seed) } else { e2e(&cfg, &opts, entries, seed) }
 }
 
 pub fn exec(toks: &[&str]) -> String {
@@ -413,16 +1333,35 @@ pub fn exec(toks: &[&str]) -> String {
                 }
                 format!("ok {}", groups.iter().map(|(o, n, k)| format!("{o}:{n}:{k}")).collect::<Vec<_>>().join(" "))
             }
-            ["e2e", rest @ ..] => {
-                let ncfg = 8;
-                if rest.len() < ncfg + 1 {
+            ["link", target] => {
+                let Some(t) = unhex(target) else { return "bad-op".into() };
+                let nt = NodeType::from_link(Path::new(std::ffi::OsStr::from_bytes(&t)));
+                let NodeType::Symlink { linktarget, linktarget_raw } = &nt else { return "oracle-fail:link-type".into() };
+                let back = nt.to_link().as_os_str().as_bytes().to_vec();
+                if back != t {
+                    return "oracle-fail:link-roundtrip".into();
+                }
+                // the node as it is stored in a tree blob and read again
+                let node = Node::new_node(std::ffi::OsStr::new("l"), nt.clone(), Metadata::default());
+                let parsed: Option<Node> = serde_json::to_string(&node).ok().and_then(|js| serde_json::from_str(&js).ok());
+                match parsed {
+                    Some(n) if n.is_symlink() && n.node_type.to_link().as_os_str().as_bytes() == t.as_slice() => {}
+                    _ => return "oracle-fail:link-serde".into(),
+                }
+                let s = if linktarget_raw.is_some() { "-".to_string() } else { hex(linktarget.as_bytes()) };
+                format!("ok {} {} {s}", u8::from(linktarget_raw.is_some()), hex(&back))
+            }
+            ["ixr", rest @ ..] => ixr::exec(rest),
+            ["time", rest @ ..] => time::exec(rest),
+            ["big", rest @ ..] => {
+                if rest.len() != 11 {
                     return "bad-op".into();
                 }
-                let Some(cfg) = Cfg::parse(&rest[..ncfg]) else { return "bad-op".into() };
-                let Ok(seed) = rest[rest.len() - 1].parse::<u64>() else { return "bad-op".into() };
-                let Some(entries) = parse_entries(&rest[ncfg..rest.len() - 1]) else { return "bad-op".into() };
-                e2e(&cfg, entries, seed)
+                let (Some(cfg), Ok(n), Ok(seed)) = (Cfg::parse(&rest[..8]), rest[9].parse::<u64>(), rest[10].parse::<u64>()) else { return "bad-op".into() };
+                big(&cfg, rest[8], n, seed)
             }
+            ["e2e", rest @ ..] => run_e2e(rest, false),
+            ["e2el", rest @ ..] => run_e2e(rest, true),
             _ => "bad-op".into(),
         }
     }))
@@ -480,6 +1419,9 @@ fn gen_cfg(rng: &mut Rng, stats: &mut Stats) -> Cfg {
 }
 
 pub fn generate(thorough: bool, rng: &mut Rng, ops: &mut Vec<String>, stats: &mut Stats) {
+    // the indexer's index files (own rng stream, so the other generators keep their cases)
+    ixr::generate(thorough, &mut Rng::new(rng.below(1 << 60)), ops, stats);
+    time::generate(thorough, &mut Rng::new(rng.below(1 << 60)), ops, stats);
     // file names
     for n in NAMES {
         ops.push(format!("c01 esc {}", hex(n)));
@@ -547,81 +1489,585 @@ pub fn generate(thorough: bool, rng: &mut Rng, ops: &mut Vec<String>, stats: &mu
         stats.hit("coalesce");
         ops.push(format!("c01 coalesce {}", locs.join(",")));
     }
-    // end to end
-    let n_e2e = if thorough { 1500 } else { 150 };
-    for i in 0..n_e2e {
-        let cfg = gen_cfg(rng, stats);
-        let n = 1 + rng.below(6) as usize;
-        let mut spec: BTreeMap<Vec<Vec<u8>>, (String, usize, u64)> = BTreeMap::new();
-        let mut es: Vec<SrcEntry> = Vec::new();
-        let mut used: Vec<Vec<Vec<u8>>> = Vec::new();
-        let big = cfg.avg >= (1 << 20);
-        for _ in 0..n {
-            let depth = 1 + rng.below(3) as usize;
-            let path: Vec<Vec<u8>> = (0..depth).map(|_| rand_name(rng)).collect();
-            if used.iter().any(|u| u.starts_with(&path) || path.starts_with(u)) {
-                continue;
-            }
-            used.push(path.clone());
-            let refs: Vec<&[u8]> = path.iter().map(Vec::as_slice).collect();
-            let mtime = 1_500_000_000 + rng.below(100_000_000) as i64;
-            match rng.below(8) {
-                0 => {
-                    let mut e = SrcEntry::file(&refs, b"");
-                    let t = rand_name(rng);
-                    e.kind = SrcKind::Symlink(t);
-                    e.mode = 0o777;
-                    e.mtime_s = mtime;
-                    es.push(e);
-                }
-                1 => {
-                    let mut e = SrcEntry::dir(&refs);
-                    e.mode = *rng.pick(&[0o755u32, 0o700, 0o775]);
-                    e.mtime_s = mtime;
-                    es.push(e);
-                }
-                _ => {
-                    let kind = *rng.pick(&["z", "c", "r", "r", "p"]);
-                    // sizes from 0 to several chunk / pack sizes
-                    let unit = if cfg.fixed { cfg.avg } else { cfg.max };
-                    let len = if big {
-                        *rng.pick(&[0usize, 1, 600_000, 1_200_000])
-                    } else {
-                        match rng.below(7) {
-                            0 => 0,
-                            1 => 1,
-                            2 => cfg.min.saturating_sub(1),
-                            3 => unit,
-                            4 => unit + 1,
-                            5 => 3 * unit + rng.below(unit as u64 + 1) as usize,
-                            _ => rng.below(6 * unit as u64 + 2) as usize,
-                        }
-                        .min(if thorough { 200_000 } else { 60_000 })
-                    };
-                    let seed = rng.below(1 << 40);
-                    let Some(c) = content(kind, len, seed) else { continue };
-                    let mut e = SrcEntry::file(&refs, &c);
-                    e.mode = *rng.pick(&[0o644u32, 0o600, 0o755, 0o444]);
-                    e.mtime_s = mtime;
-                    stats.hit(format!("file.{kind}.{}", Stats::bucket(len)));
-                    _ = spec.insert(path, (kind.to_string(), len, seed));
-                    es.push(e);
-                }
-            }
-        }
-        if es.is_empty() {
-            continue;
-        }
-        // synthesised parents: give them explicit entries so that the op line is the whole source
-        let src = MemSource::new(es);
-        let mut toks = vec!["c01".to_string(), "e2e".to_string()];
-        toks.extend(cfg.tokens());
-        for e in &src.entries {
-            toks.push(entry_tokens(e, &spec));
-        }
-        toks.push(rng.below(1 << 32).to_string());
-        stats.hit("e2e");
-        let _ = i;
-        ops.push(toks.join(" "));
+    // link targets as stored in a node
+    const LINKS: [&[u8]; 14] = [
+        b"", b"a", b"/", b"\xc3\xa9", b"\xf0\x9f\x98\x80", b"\xff", b"\xe2\x82", b"a\xe2\x82", b"\xed\xa0\x80", b"\xc0\xaf", b"\xf4\x90\x80\x80", b"a\\b\"c\nd", b"\x00",
+        b"\xef\xbf\xbd",
+    ];
+    for t in LINKS {
+        ops.push(format!("c01 link {}", hex(t)));
     }
+    for i in 0..(if thorough { 3000 } else { 300 }) {
+        let mut t = match i % 6 {
+            0 => {
+                // valid UTF-8 of all encoded lengths
+                let n = rng.below(12) as usize;
+                let cs = ['a', '/', '\\', '"', '\n', 'é', '€', '😀', '\u{7f}', '\u{80}', '\u{7ff}', '\u{800}', '\u{ffff}', '\u{10000}', '\u{10ffff}', '\u{fffd}'];
+                (0..n).map(|_| *rng.pick(&cs)).collect::<String>().into_bytes()
+            }
+            1 => {
+                let n = *rng.pick(&[4095usize, 4096, 4097, 5000]);
+                let mut v = rng.bytes(n);
+                if rng.chance(1, 2) {
+                    for b in &mut v {
+                        *b = b'a' + *b % 26;
+                    }
+                }
+                v
+            }
+            2 => {
+                let n = rng.below(10) as usize;
+                rng.bytes(n)
+            }
+            _ => rand_target(rng, stats),
+        };
+        if rng.chance(1, 6) {
+            // a valid prefix with one broken byte somewhere
+            let k = rng.below(t.len() as u64 + 1) as usize;
+            t.insert(k, *rng.pick(&[0xffu8, 0x80, 0xc3, 0xe2, 0xf0, 0xed, 0]));
+        }
+        stats.hit(if std::str::from_utf8(&t).is_ok() { "link.utf8" } else { "link.non-utf8" });
+        ops.push(format!("c01 link {}", hex(&t)));
+    }
+    // one backup with more blobs than the indexer collects before it writes an index file
+    let max_count = rustic_core::verif::indexer::MAX_COUNT as u64;
+    let bigs: Vec<(&str, u64)> = if thorough { vec![("files", max_count + 10_000), ("files", 2 * max_count + 5), ("dirs", max_count / 2 + 2_000), ("files", max_count + 1)] } else { vec![("files", max_count + 10_000)] };
+    for (shape, n) in bigs {
+        let size = *rng.pick(&[16usize, 32, 64]);
+        let cfg = Cfg { version: 2, comp: *rng.pick(&[None, Some(3)]), fixed: true, avg: size, min: size, max: size, dp: Some(*rng.pick(&[20_000u32, 100_000])), tp: Some(*rng.pick(&[20_000u32, 100_000])) };
+        stats.hit(format!("big.{shape}"));
+        ops.push(format!("c01 big {} {shape} {n} {}", cfg.tokens().join(" "), rng.below(1 << 32)));
+    }
+    // end to end: the classic mix, shaped scenarios on the in-memory source, and real directories
+    let (n_classic, n_shaped, n_local) = if thorough { (1500, 120, 400) } else { (200, 40, 100) };
+    for _ in 0..n_classic {
+        if let Some(l) = gen_case("classic", false, thorough, rng, stats) {
+            ops.push(l);
+        }
+    }
+    for scn in ["deep", "bound", "hard", "coll", "links", "mixed"] {
+        for _ in 0..n_shaped {
+            if let Some(l) = gen_case(scn, false, thorough, rng, stats) {
+                ops.push(l);
+            }
+        }
+    }
+    for i in 0..n_local {
+        let scn = ["mixed", "mixed", "mixed", "deep", "hard", "links", "bound", "classic"][i % 8];
+        if let Some(l) = gen_case(scn, true, thorough, rng, stats) {
+            ops.push(l);
+        }
+    }
+}
+
+// ---------------------------------------------------------------------------------------------------------
+// end-to-end case builder
+
+/// link targets: non-UTF-8 bytes, backslashes / quotes / newlines, absolute, dotted, long (up to the 4095 bytes a symlink holds)
+fn rand_target(rng: &mut Rng, stats: &mut Stats) -> Vec<u8> {
+    const FIXED: [&[u8]; 18] = [
+        b"\xff\xfe",
+        b"../\xff\xfe/x",
+        b"a\\b\"c\nd",
+        b"\\\\",
+        b"\"",
+        b"\n",
+        b"/",
+        b"/etc/passwd",
+        b".",
+        b"..",
+        b"dir/",
+        b"\xe2\x82",
+        b"\x80",
+        b"\xc0\xaf",
+        b"\xed\xa0\x80",
+        b"\\xff\\u00e9",
+        b"\xf0\x9f\x98\x80 \xc3\xa9",
+        b"a//b/./c/",
+    ];
+    let t = match rng.below(6) {
+        0 => rand_name(rng),
+        1 | 2 => rng.pick(&FIXED).to_vec(),
+        3 => {
+            // random bytes biased to the awkward ones, with separators
+            let n = 1 + rng.below(40) as usize;
+            let mut v = rng.bytes(n);
+            for b in &mut v {
+                if rng.chance(1, 3) {
+                    *b = *rng.pick(&[b'\\', b'"', b'\n', b'/', 0xff, 0xfe, 0x80, 0xc3, b'\'', b'\t', b' ', b'.']);
+                }
+            }
+            v
+        }
+        4 => {
+            let n = *rng.pick(&[254usize, 255, 256, 1000, 4094, 4095]);
+            let mut v = rng.bytes(n);
+            for (i, b) in v.iter_mut().enumerate() {
+                if i % 50 == 49 {
+                    *b = b'/';
+                }
+            }
+            stats.hit("symlink.target.long");
+            v
+        }
+        _ => {
+            let mut v = rand_name(rng);
+            v.extend_from_slice(b"/");
+            v.extend_from_slice(&rand_name(rng));
+            v
+        }
+    };
+    let mut t: Vec<u8> = t.into_iter().map(|b| if b == 0 { b'_' } else { b }).collect();
+    if t.is_empty() {
+        t = b"x".to_vec();
+    }
+    if std::str::from_utf8(&t).is_err() {
+        stats.hit("symlink.target.non-utf8");
+    }
+    if t.iter().any(|b| matches!(b, b'\\' | b'"' | b'\n')) {
+        stats.hit("symlink.target.backslash-quote-newline");
+    }
+    t
+}
+
+fn rand_mtime(rng: &mut Rng, stats: &mut Stats, ns: bool) -> (i64, u32) {
+    let s = if rng.chance(1, 8) {
+        let s = *rng.pick(&[-2_000_000_000i64, -86_400, -1, 0, 1, (1 << 31) - 1, 1 << 31, 1 << 32, 10_000_000_000]);
+        stats.hit(if s < 0 { "mtime.before-1970" } else if s >= 1 << 31 { "mtime.after-2038" } else { "mtime.epoch" });
+        s
+    } else {
+        1_500_000_000 + rng.below(100_000_000) as i64
+    };
+    let n = if ns {
+        match rng.below(4) {
+            0 => 0,
+            1 => *rng.pick(&[1u32, 999_999_999, 500_000_000, 1000]),
+            _ => rng.below(1_000_000_000) as u32,
+        }
+    } else {
+        0
+    };
+    if n != 0 {
+        stats.hit(if s < 0 { "mtime.before-1970-with-nanoseconds" } else { "mtime.nanoseconds" });
+    }
+    (s, n)
+}
+
+struct Build {
+    ents: Vec<PEnt>,
+    spec: BTreeMap<Vec<Vec<u8>>, (String, usize, u64)>,
+    local: bool,
+}
+
+impl Build {
+    fn new(local: bool) -> Self {
+        Self { ents: vec![], spec: BTreeMap::new(), local }
+    }
+    /// may `path` be added (under explicit directories only, not over or above anything)
+    fn free(&self, path: &[Vec<u8>]) -> bool {
+        !path.is_empty()
+            && self.ents.iter().all(|x| {
+                x.e.path != path && !(path.starts_with(&x.e.path) && !matches!(x.e.kind, SrcKind::Dir)) && !x.e.path.starts_with(path)
+            })
+    }
+    fn push(&mut self, path: Vec<Vec<u8>>, kind: SrcKind, mode: u32, mt: (i64, u32), tag: Tag, xlinks: u64) {
+        self.ents.push(PEnt { e: SrcEntry { path, kind, mode, mtime_s: mt.0, ctime_s: mt.0, inode: 0, links: 1 }, tag, ns: mt.1, xlinks });
+    }
+    fn file_mode(&self, rng: &mut Rng, stats: &mut Stats) -> u32 {
+        if rng.chance(1, 5) {
+            let m = *rng.pick(&[0o4755u32, 0o2755, 0o6711, 0o1644, 0o000, 0o200, 0o777, 0o7777, 0o111]);
+            stats.hit(format!("mode.file.{m:o}"));
+            m
+        } else {
+            *rng.pick(&[0o644u32, 0o600, 0o755, 0o444])
+        }
+    }
+    fn dir_mode(&self, rng: &mut Rng, stats: &mut Stats) -> u32 {
+        if rng.chance(1, 5) {
+            let m = *rng.pick(&[0o1777u32, 0o2775, 0o500, 0o000, 0o111, 0o7777, 0o4755]);
+            stats.hit(format!("mode.dir.{m:o}"));
+            m
+        } else {
+            *rng.pick(&[0o755u32, 0o700, 0o775])
+        }
+    }
+    fn file(&mut self, rng: &mut Rng, stats: &mut Stats, path: Vec<Vec<u8>>, kind: &str, len: usize, xlinks: u64) -> bool {
+        if !self.free(&path) {
+            return false;
+        }
+        let seed = rng.below(1 << 40);
+        let mode = self.file_mode(rng, stats);
+        let mt = rand_mtime(rng, stats, true);
+        stats.hit(format!("file.{kind}.{}", Stats::bucket(len)));
+        _ = self.spec.insert(path.clone(), (kind.to_string(), len, seed));
+        // the bytes are regenerated from the token
+        self.push(path, SrcKind::File(vec![]), mode, mt, Tag::Plain, xlinks);
+        true
+    }
+    fn dir(&mut self, rng: &mut Rng, stats: &mut Stats, path: Vec<Vec<u8>>) -> bool {
+        if !self.free(&path) {
+            return false;
+        }
+        let mode = self.dir_mode(rng, stats);
+        let mt = rand_mtime(rng, stats, true);
+        self.push(path, SrcKind::Dir, mode, mt, Tag::Plain, 0);
+        true
+    }
+    fn link(&mut self, rng: &mut Rng, stats: &mut Stats, path: Vec<Vec<u8>>) -> bool {
+        if !self.free(&path) {
+            return false;
+        }
+        let t = rand_target(rng, stats);
+        // the mtime of a real symlink cannot be chosen (it is read from the disk instead)
+        let mt = if self.local { (0, 0) } else { rand_mtime(rng, stats, true) };
+        stats.hit("symlink");
+        self.push(path, SrcKind::Symlink(t), 0o777, mt, Tag::Plain, 0);
+        true
+    }
+    fn hard(&mut self, path: Vec<Vec<u8>>, target: Vec<Vec<u8>>) -> bool {
+        if !self.free(&path) {
+            return false;
+        }
+        self.push(path, SrcKind::File(vec![]), 0, (0, 0), Tag::Hard(target), 0);
+        true
+    }
+    fn tree_of(&mut self, rng: &mut Rng, stats: &mut Stats, path: Vec<Vec<u8>>, dir: Vec<Vec<u8>>) -> bool {
+        if !self.free(&path) || path.starts_with(&dir) {
+            return false;
+        }
+        let mode = self.file_mode(rng, stats);
+        let mt = rand_mtime(rng, stats, true);
+        self.push(path, SrcKind::File(vec![]), mode, mt, Tag::TreeOf(dir), 0);
+        true
+    }
+    /// explicit entries for all parents, sorted by path: the op line is the whole source
+    fn finish(mut self, rng: &mut Rng, stats: &mut Stats) -> Vec<String> {
+        let mut have: std::collections::BTreeSet<Vec<Vec<u8>>> = self.ents.iter().map(|x| x.e.path.clone()).collect();
+        let paths: Vec<Vec<Vec<u8>>> = have.iter().cloned().collect();
+        for p in paths {
+            for k in 1..p.len() {
+                if have.insert(p[..k].to_vec()) {
+                    let mode = self.dir_mode(rng, stats);
+                    let mt = rand_mtime(rng, stats, true);
+                    self.push(p[..k].to_vec(), SrcKind::Dir, mode, mt, Tag::Plain, 0);
+                }
+            }
+        }
+        self.ents.sort_by(|a, b| a.e.path.cmp(&b.e.path));
+        let depth = self.ents.iter().map(|x| x.e.path.len()).max().unwrap_or(0);
+        stats.hit(format!("tree.depth.{}", match depth { 0..=3 => "1-3", 4..=8 => "4-8", 9..=12 => "9-12", 13..=24 => "13-24", _ => "25+" }));
+        for x in &self.ents {
+            if matches!(x.e.kind, SrcKind::Dir) && !self.ents.iter().any(|y| y.e.path.len() > x.e.path.len() && y.e.path.starts_with(&x.e.path)) {
+                stats.hit("dir.empty");
+            }
+        }
+        self.ents.iter().map(|x| entry_token(x, &self.spec)).collect()
+    }
+}
+
+fn short_name(rng: &mut Rng) -> Vec<u8> {
+    rng.pick(&[&b"a"[..], b"b", b"B", b"d", b"e", b"\xff", b"\xc3\xa9", b"\"", b"\\", b" ", b"zz", b"A"]).to_vec()
+}
+
+fn small_cfg(rng: &mut Rng, stats: &mut Stats) -> Cfg {
+    loop {
+        let c = gen_cfg(rng, stats);
+        if c.avg < (1 << 20) {
+            return c;
+        }
+    }
+}
+
+/// sizes at the borders of the chunker
+fn border_len(rng: &mut Rng, stats: &mut Stats, cfg: &Cfg, cap: usize) -> usize {
+    let (l, what) = if cfg.fixed {
+        let k = 1 + rng.below(5) as usize;
+        match rng.below(3) {
+            0 => (k * cfg.avg - 1, "fixed.k*size-1"),
+            1 => (k * cfg.avg, "fixed.k*size"),
+            _ => (k * cfg.avg + 1, "fixed.k*size+1"),
+        }
+    } else {
+        match rng.below(9) {
+            0 => (cfg.min.saturating_sub(1), "rabin.min-1"),
+            1 => (cfg.min, "rabin.min"),
+            2 => (cfg.min + 1, "rabin.min+1"),
+            3 => (cfg.max - 1, "rabin.max-1"),
+            4 => (cfg.max, "rabin.max"),
+            5 => (cfg.max + 1, "rabin.max+1"),
+            6 => (2 * cfg.max, "rabin.2max"),
+            7 => (3 * cfg.max, "rabin.3max"),
+            _ => (2 * cfg.max + cfg.min, "rabin.2max+min"),
+        }
+    };
+    if l <= cap {
+        stats.hit(format!("len.border.{what}"));
+    }
+    l.min(cap)
+}
+
+fn classic_len(rng: &mut Rng, cfg: &Cfg, thorough: bool) -> usize {
+    let unit = if cfg.fixed { cfg.avg } else { cfg.max };
+    if cfg.avg >= (1 << 20) {
+        *rng.pick(&[0usize, 1, 600_000, 1_200_000])
+    } else {
+        match rng.below(7) {
+            0 => 0,
+            1 => 1,
+            2 => cfg.min.saturating_sub(1),
+            3 => unit,
+            4 => unit + 1,
+            5 => 3 * unit + rng.below(unit as u64 + 1) as usize,
+            _ => rng.below(6 * unit as u64 + 2) as usize,
+        }
+        .min(if thorough { 200_000 } else { 60_000 })
+    }
+}
+
+/// one end-to-end op line of the given scenario
+#[allow(clippy::too_many_lines)]
+fn gen_case(scn: &str, local: bool, thorough: bool, rng: &mut Rng, stats: &mut Stats) -> Option<String> {
+    let cap = if thorough { 200_000 } else { 60_000 };
+    let mut b = Build::new(local);
+    let mut gf = None;
+    let mut cfg = match scn {
+        "classic" => gen_cfg(rng, stats),
+        _ => small_cfg(rng, stats),
+    };
+    let content_kind = |rng: &mut Rng| *rng.pick(&["z", "c", "r", "r", "p"]);
+    match scn {
+        "classic" => {
+            let n = 1 + rng.below(6) as usize;
+            for _ in 0..n {
+                let depth = 1 + rng.below(3) as usize;
+                let path: Vec<Vec<u8>> = (0..depth).map(|_| rand_name(rng)).collect();
+                match rng.below(8) {
+                    0 => _ = b.link(rng, stats, path),
+                    1 => _ = b.dir(rng, stats, path),
+                    _ => {
+                        let len = classic_len(rng, &cfg, thorough);
+                        let k = content_kind(rng);
+                        _ = b.file(rng, stats, path, k, len, 0);
+                    }
+                }
+            }
+        }
+        "deep" => {
+            // a chain of directories; leaves: empty directory / file / symlink; directories holding only empty directories
+            let maxd = if thorough { 40 } else { 12 };
+            let dr = 2 + rng.below(maxd as u64 - 2) as usize;
+            let d = *rng.pick(&[maxd, maxd - 1, dr]);
+            let chain: Vec<Vec<u8>> = (0..d).map(|_| short_name(rng)).collect();
+            match rng.below(3) {
+                0 => _ = b.dir(rng, stats, chain.clone()),
+                1 => {
+                    let (k, l) = (content_kind(rng), rng.below(300) as usize);
+                    _ = b.file(rng, stats, chain.clone(), k, l, 0);
+                }
+                _ => _ = b.link(rng, stats, chain.clone()),
+            }
+            for _ in 0..rng.below(4) {
+                // empty directories (and directories of empty directories) hanging off the chain
+                let k = rng.below(d as u64) as usize;
+                let mut p = chain[..k].to_vec();
+                p.push(rand_name(rng));
+                if rng.chance(1, 2) {
+                    let mut q = p.clone();
+                    q.push(short_name(rng));
+                    _ = b.dir(rng, stats, q);
+                    let mut q = p.clone();
+                    q.push(rand_name(rng));
+                    if b.dir(rng, stats, q) {
+                        stats.hit("dir.of-empty-dirs");
+                    }
+                } else {
+                    _ = b.dir(rng, stats, p);
+                }
+            }
+            if rng.chance(1, 2) {
+                let k = rng.below(d as u64) as usize;
+                let mut p = chain[..k].to_vec();
+                p.push(rand_name(rng));
+                let l = rng.below(2000) as usize;
+                _ = b.file(rng, stats, p, "r", l, 0);
+            }
+        }
+        "bound" => {
+            // sizes at the chunker's borders, pack size at 1 / 2 blobs ± 1 (grow factor 0: the pack size stays what it is)
+            if !cfg.fixed {
+                let bits = rng.range(6, 10);
+                cfg.avg = 1 << bits;
+                cfg.min = *rng.pick(&[cfg.avg, cfg.avg / 2, 64]);
+                cfg.max = *rng.pick(&[cfg.avg, 2 * cfg.avg, 8 * cfg.avg]);
+            } else if cfg.avg == 1 {
+                cfg.avg = 512;
+                cfg.min = 512;
+                cfg.max = 512;
+            }
+            let unit = (if cfg.fixed { cfg.avg } else { cfg.max }) as u32;
+            if rng.chance(3, 4) {
+                let blob = unit + 32;
+                let (dp, what) = match rng.below(7) {
+                    0 => (blob - 1, "1blob-1"),
+                    1 => (blob, "1blob"),
+                    2 => (blob + 1, "1blob+1"),
+                    3 => (2 * blob - 1, "2blobs-1"),
+                    4 => (2 * blob, "2blobs"),
+                    5 => (2 * blob + 1, "2blobs+1"),
+                    _ => (3 * blob, "3blobs"),
+                };
+                cfg.dp = Some(dp);
+                gf = Some(0);
+                stats.hit(format!("pack.size.{what}"));
+                if cfg.version == 1 || cfg.comp.is_none() {
+                    stats.hit("pack.size.exact(uncompressed)");
+                }
+            }
+            let n = 2 + rng.below(4) as usize;
+            for _ in 0..n {
+                let len = border_len(rng, stats, &cfg, cap);
+                let path = vec![rand_name(rng)];
+                let kind = *rng.pick(&["r", "r", "r", "z", "c", "p"]);
+                _ = b.file(rng, stats, path, kind, len, 0);
+            }
+        }
+        "hard" => {
+            // files with several names (same / different directories), files with names outside of the tree
+            let groups = 1 + rng.below(3) as usize;
+            for _ in 0..groups {
+                let depth = 1 + rng.below(3) as usize;
+                let path: Vec<Vec<u8>> = (0..depth).map(|_| rand_name(rng)).collect();
+                let len = if rng.chance(1, 5) { 0 } else { classic_len(rng, &cfg, thorough) };
+                let x = if rng.chance(1, 4) { 1 + rng.below(2) } else { 0 };
+                let k = content_kind(rng);
+                if !b.file(rng, stats, path.clone(), k, len, x) {
+                    continue;
+                }
+                let names = if x > 0 && rng.chance(1, 2) { 0 } else { 1 + rng.below(3) };
+                if names == 0 {
+                    stats.hit("hardlink.names-outside-only");
+                }
+                for _ in 0..names {
+                    let mut p = if rng.chance(1, 2) { path[..path.len() - 1].to_vec() } else { (0..rng.below(3)).map(|_| rand_name(rng)).collect() };
+                    p.push(rand_name(rng));
+                    if b.hard(p, path.clone()) {
+                        stats.hit("hardlink.name");
+                    }
+                }
+            }
+            // and something that is not linked
+            let (p, l) = (vec![rand_name(rng)], rng.below(500) as usize);
+            _ = b.file(rng, stats, p, "r", l, 0);
+        }
+        "coll" => {
+            // a file whose bytes are the serialised tree of a directory next to it (the tree has to stay one chunk for the ids to collide)
+            cfg.fixed = rng.chance(1, 2);
+            if cfg.fixed {
+                let s = *rng.pick(&[4096usize, 5000, 16384]);
+                (cfg.avg, cfg.min, cfg.max) = (s, s, s);
+            } else {
+                cfg.avg = *rng.pick(&[1usize << 12, 1 << 13, 1 << 14]);
+                cfg.min = cfg.avg;
+                cfg.max = 8 * cfg.avg;
+            }
+            let top: Vec<Vec<u8>> = if rng.chance(1, 2) { vec![] } else { vec![rand_name(rng)] };
+            let mut d = top.clone();
+            d.push(rng.pick(&[&b"d"[..], b"m", b"\xffd"]).to_vec());
+            if !b.dir(rng, stats, d.clone()) {
+                return None;
+            }
+            for _ in 0..rng.below(4) {
+                let mut p = d.clone();
+                p.push(rand_name(rng));
+                match rng.below(4) {
+                    0 => _ = b.dir(rng, stats, p),
+                    1 => _ = b.link(rng, stats, p),
+                    _ => {
+                        let (k, l) = (content_kind(rng), rng.below(3000) as usize);
+                        _ = b.file(rng, stats, p, k, l, 0);
+                    }
+                }
+            }
+            // sorted before or after the directory: data blob first or tree blob first
+            let mut t = top.clone();
+            let before = rng.chance(1, 2);
+            t.push(if before { b"a-tree".to_vec() } else { b"z-tree".to_vec() });
+            if !b.tree_of(rng, stats, t, d.clone()) {
+                return None;
+            }
+            stats.hit(if before { "tree-content-file.before-dir" } else { "tree-content-file.after-dir" });
+            if rng.chance(1, 3) {
+                // a second copy elsewhere
+                if b.tree_of(rng, stats, vec![b"copy".to_vec(), b"t".to_vec()], d) {
+                    stats.hit("tree-content-file.second-copy");
+                }
+            }
+        }
+        "links" => {
+            for _ in 0..(2 + rng.below(6)) {
+                let depth = 1 + rng.below(2) as usize;
+                let path: Vec<Vec<u8>> = (0..depth).map(|_| rand_name(rng)).collect();
+                _ = b.link(rng, stats, path);
+            }
+            let (p, l) = (vec![rand_name(rng)], rng.below(500) as usize);
+            _ = b.file(rng, stats, p, "r", l, 0);
+        }
+        "mixed" => {
+            // everything at once (the real-directory variant mostly uses this)
+            let n = 3 + rng.below(10) as usize;
+            let mut files: Vec<Vec<Vec<u8>>> = vec![];
+            for _ in 0..n {
+                let depth = 1 + rng.below(4) as usize;
+                let path: Vec<Vec<u8>> = (0..depth).map(|_| if rng.chance(1, 2) { short_name(rng) } else { rand_name(rng) }).collect();
+                match rng.below(10) {
+                    0 | 1 => _ = b.link(rng, stats, path),
+                    2 | 3 => _ = b.dir(rng, stats, path),
+                    4 if !files.is_empty() => {
+                        let t = rng.pick(&files).clone();
+                        if b.hard(path, t) {
+                            stats.hit("hardlink.name");
+                        }
+                    }
+                    _ => {
+                        let len = if rng.chance(1, 3) { border_len(rng, stats, &cfg, cap) } else { classic_len(rng, &cfg, thorough) };
+                        let x = u64::from(rng.chance(1, 10));
+                        let k = content_kind(rng);
+                        if b.file(rng, stats, path.clone(), k, len, x) {
+                            files.push(path);
+                        }
+                    }
+                }
+            }
+            if rng.chance(1, 3) {
+                let maxd = if thorough { 30 } else { 10 };
+                let chain: Vec<Vec<u8>> = (0..maxd).map(|_| short_name(rng)).collect();
+                _ = b.dir(rng, stats, chain);
+            }
+        }
+        _ => return None,
+    }
+    if b.ents.is_empty() {
+        return None;
+    }
+    let mut toks = vec!["c01".to_string(), if local { "e2el" } else { "e2e" }.to_string()];
+    toks.extend(cfg.tokens());
+    if let Some(g) = gf {
+        toks.push(format!("gf={g}"));
+    }
+    toks.push(format!("nr={}", rng.range(20, 40)));
+    let ro = *rng.pick(&[0usize, 1, 1, 1, 1, 2, 2, 3]);
+    if ro > 0 {
+        stats.hit(format!("restore-over-existing.rounds.{ro}"));
+        toks.push(format!("ro={ro}"));
+    }
+    if local {
+        let a = rng.chance(2, 3);
+        stats.hit(if a { "e2el.as-path" } else { "e2el.real-path" });
+        toks.push(format!("as={}", u8::from(a)));
+    }
+    toks.extend(b.finish(rng, stats));
+    toks.push(rng.below(1 << 32).to_string());
+    stats.hit(format!("{}.{scn}", if local { "e2el" } else { "e2e" }));
+    stats.hit(if local { "e2el" } else { "e2e" });
+    Some(toks.join(" "))
 }
